@@ -315,3 +315,1894 @@ Proof.
 Qed.
 
 End Collection.
+
+(* ====================================================================================== *)
+(* 2. list/list_folding: first, last, all, any, join, sum                                  *)
+(* ====================================================================================== *)
+Section ListFolding.
+
+(* first: "The first item in a list."  (examples: `(first [])` and `(first "text")` are nothing) *)
+Lemma first_spec l : pure_sem F_first [Some (JArr l)] = Some (hd_error l).
+Proof. reflexivity. Qed.
+Lemma first_cons x l : pure_sem F_first [Some (JArr (x :: l))] = Some (Some x).
+Proof. reflexivity. Qed.
+Lemma first_empty : pure_sem F_first [Some (JArr [])] = Some None.
+Proof. reflexivity. Qed.
+Lemma first_wrong_type vals : not_arr (arg vals 0%nat) -> pure_sem F_first vals = Some None.
+Proof.
+  intros H. cbv [pure_sem core_fn sem_coll].
+  destruct (arg vals 0%nat) as [[| | | | |]|]; try reflexivity; destruct H.
+Qed.
+
+(* last: "The last item in a list." *)
+Lemma last_spec l : pure_sem F_last [Some (JArr l)] = Some (hd_error (rev l)).
+Proof. cbv [pure_sem core_fn sem_coll arg nth_error]. now rewrite last_opt_rev. Qed.
+Lemma last_snoc l x : pure_sem F_last [Some (JArr (l ++ [x]))] = Some (Some x).
+Proof. rewrite last_spec, rev_unit. reflexivity. Qed.
+Lemma last_nonempty l d : l <> [] -> pure_sem F_last [Some (JArr l)] = Some (Some (last l d)).
+Proof. intros H. cbv [pure_sem core_fn sem_coll arg nth_error]. now rewrite (last_opt_last l d H). Qed.
+Lemma last_empty : pure_sem F_last [Some (JArr [])] = Some None.
+Proof. reflexivity. Qed.
+Lemma last_wrong_type vals : not_arr (arg vals 0%nat) -> pure_sem F_last vals = Some None.
+Proof.
+  intros H. cbv [pure_sem core_fn sem_coll].
+  destruct (arg vals 0%nat) as [[| | | | |]|]; try reflexivity; destruct H.
+Qed.
+
+(* all: "Check if all the items in a list are true. Will return false if the list is empty." *)
+Lemma all_spec l :
+  pure_sem F_all [Some (JArr l)]
+  = Some (Some (JBool (match l with [] => false | _ => forallb is_true l end))).
+Proof. reflexivity. Qed.
+Lemma all_empty : pure_sem F_all [Some (JArr [])] = Some (Some (JBool false)).
+Proof. reflexivity. Qed.
+Lemma forallb_is_true_bools bs : forallb is_true (map JBool bs) = forallb (fun b => b) bs.
+Proof. induction bs as [|[] t IH]; cbn; [reflexivity|exact IH|reflexivity]. Qed.
+Lemma all_bools bs : bs <> [] ->
+  pure_sem F_all [Some (JArr (map JBool bs))] = Some (Some (JBool (forallb (fun b => b) bs))).
+Proof.
+  intros H. rewrite all_spec, <- forallb_is_true_bools.
+  destruct bs as [|b t]; [contradiction|reflexivity].
+Qed.
+(* a non-boolean element is "not true": examples `[1, 5, false, 1.1]` and `[true, true, 1, true]` *)
+Lemma all_not_true_element l v : In v l -> v <> JBool true ->
+  pure_sem F_all [Some (JArr l)] = Some (Some (JBool false)).
+Proof.
+  intros Hin Hv. rewrite all_spec. destruct l as [|x t]; [reflexivity|].
+  do 3 f_equal. destruct (forallb is_true (x :: t)) eqn:E; [|reflexivity].
+  rewrite forallb_forall in E. specialize (E v Hin).
+  destruct v as [|[]| | | |]; try discriminate E. now contradiction Hv.
+Qed.
+Lemma all_true_iff l :
+  pure_sem F_all [Some (JArr l)] = Some (Some (JBool true))
+  <-> l <> [] /\ forall v, In v l -> v = JBool true.
+Proof.
+  rewrite all_spec. split.
+  - intros H. destruct l as [|x t]; [discriminate H|]. split; [discriminate|].
+    injection H as H. change (forallb is_true (x :: t) = true) in H.
+    rewrite forallb_forall in H. intros v Hv. specialize (H v Hv).
+    destruct v as [|[]| | | |]; try discriminate H. reflexivity.
+  - intros [Hne Hall]. destruct l as [|x t]; [contradiction|]. do 3 f_equal.
+    change (forallb is_true (x :: t) = true). apply forallb_forall. intros v Hv. now rewrite (Hall v Hv).
+Qed.
+
+(* any: "Check if any of item in a list is ture."  (example: `(any [])` = false) *)
+Lemma any_spec l : pure_sem F_any [Some (JArr l)] = Some (Some (JBool (existsb is_true l))).
+Proof. reflexivity. Qed.
+Lemma any_empty : pure_sem F_any [Some (JArr [])] = Some (Some (JBool false)).
+Proof. reflexivity. Qed.
+Lemma existsb_is_true_bools bs : existsb is_true (map JBool bs) = existsb (fun b => b) bs.
+Proof. induction bs as [|[] t IH]; cbn; [reflexivity|reflexivity|exact IH]. Qed.
+Lemma any_bools bs :
+  pure_sem F_any [Some (JArr (map JBool bs))] = Some (Some (JBool (existsb (fun b => b) bs))).
+Proof. now rewrite any_spec, existsb_is_true_bools. Qed.
+(* non-boolean elements are ignored: example `[1, 2, true, false, 4]` = true *)
+Lemma any_true_iff l :
+  pure_sem F_any [Some (JArr l)] = Some (Some (JBool true)) <-> In (JBool true) l.
+Proof.
+  rewrite any_spec. split.
+  - intros H. injection H as H. apply existsb_exists in H as (v & Hv & Ht).
+    destruct v as [|[]| | | |]; try discriminate Ht. exact Hv.
+  - intros H. do 3 f_equal. apply existsb_exists. exists (JBool true). now split.
+Qed.
+Lemma all_wrong_type vals : not_arr (arg vals 0%nat) -> pure_sem F_all vals = Some None.
+Proof.
+  intros H. cbv [pure_sem core_fn sem_coll on_array].
+  destruct (arg vals 0%nat) as [[| | | | |]|]; try reflexivity; destruct H.
+Qed.
+Lemma any_wrong_type vals : not_arr (arg vals 0%nat) -> pure_sem F_any vals = Some None.
+Proof.
+  intros H. cbv [pure_sem core_fn sem_coll on_array].
+  destruct (arg vals 0%nat) as [[| | | | |]|]; try reflexivity; destruct H.
+Qed.
+
+(* join: "Join all the items in the list into a String. If list have non string items, it will
+   return nuthing. If the second argument is ommited, the items will be seperated by comma." *)
+Definition intercalate (sep : str) (ss : list str) : str :=
+  match ss with [] => [] | s :: t => s ++ concat (map (app sep) t) end.
+
+Lemma intercalate_cons sep s t : t <> [] -> intercalate sep (s :: t) = s ++ sep ++ intercalate sep t.
+Proof.
+  intros H. destruct t as [|u t]; [contradiction|]. cbn [intercalate map concat].
+  now rewrite <- app_assoc.
+Qed.
+
+Lemma join_go_strings sep ss : forall first,
+  join_go sep first (map JStr ss)
+  = Some (if first then intercalate sep ss else concat (map (app sep) ss)).
+Proof.
+  induction ss as [|s t IH]; intros first; cbn [map join_go].
+  - now destruct first.
+  - rewrite (IH false). cbn [option_map]. destruct first; cbn [intercalate map concat]; [reflexivity|].
+    now rewrite <- app_assoc.
+Qed.
+
+Lemma join_go_nonstring sep l : forall first,
+  (exists v, In v l /\ forall s, v <> JStr s) -> join_go sep first l = None.
+Proof.
+  induction l as [|x t IH]; intros first (v & Hin & Hv); [destruct Hin|].
+  destruct Hin as [->|Hin].
+  - destruct v as [| |s| | |]; try reflexivity. now contradiction (Hv s).
+  - destruct x as [| |s| | |]; try reflexivity. cbn [join_go].
+    rewrite (IH false); [reflexivity|]. exists v. now split.
+Qed.
+
+Definition comma_space : str := [44; 32].     (* ", " *)
+
+Lemma join_sep ss sep :
+  pure_sem F_join [Some (JArr (map JStr ss)); Some (JStr sep)]
+  = Some (Some (JStr (intercalate sep ss))).
+Proof. psem. now rewrite join_go_strings. Qed.
+
+Lemma join_default ss :
+  pure_sem F_join [Some (JArr (map JStr ss))] = Some (Some (JStr (intercalate comma_space ss))).
+Proof. psem. now rewrite join_go_strings. Qed.
+
+Lemma join_nonstring_item l sepv : (exists v, In v l /\ forall s, v <> JStr s) ->
+  pure_sem F_join [Some (JArr l); sepv] = Some None.
+Proof. intros H. psem. now rewrite join_go_nonstring. Qed.
+
+(* NOT "nothing": a separator of the wrong type behaves like an omitted separator (the code uses
+   `.and_then(|f| TryInto::<String>::try_into(f).ok()).unwrap_or(", ")`) *)
+Lemma join_bad_sep_is_default a sepv : not_str sepv ->
+  pure_sem F_join [a; sepv] = pure_sem F_join [a].
+Proof. intros H. psem. destruct sepv as [[| | | | |]|]; try reflexivity; destruct H. Qed.
+
+Lemma join_wrong_type vals : not_arr (arg vals 0%nat) -> pure_sem F_join vals = Some None.
+Proof.
+  intros H. cbv [pure_sem core_fn sem_coll join_sem].
+  destruct (arg vals 0%nat) as [[| | | | |]|]; try reflexivity; destruct H.
+Qed.
+
+(* sum: "Sum all the items in the list. If list have non numeric items, it will return nuthing." *)
+Lemma sum_nonnumeric l : forallb is_num l = false -> pure_sem F_sum [Some (JArr l)] = Some None.
+Proof. intros H. cbv [pure_sem core_fn sem_coll FunsColl.sum_sem arg nth_error]. now rewrite H. Qed.
+
+Lemma sum_nonnumeric_item l v : In v l -> not_num (Some v) -> pure_sem F_sum [Some (JArr l)] = Some None.
+Proof.
+  intros Hin Hv. apply sum_nonnumeric. destruct (forallb is_num l) eqn:E; [|reflexivity].
+  rewrite forallb_forall in E. specialize (E v Hin). destruct v; try discriminate E. destruct Hv.
+Qed.
+
+Lemma sum_wrong_type vals : not_arr (arg vals 0%nat) -> pure_sem F_sum vals = Some None.
+Proof.
+  intros H. cbv [pure_sem core_fn sem_coll FunsColl.sum_sem].
+  destruct (arg vals 0%nat) as [[| | | | |]|]; try reflexivity; destruct H.
+Qed.
+
+(* example `(sum [])` = 0 *)
+Lemma sum_empty : pure_sem F_sum [Some (JArr [])] = Some (Some (JNum (NPos 0))).
+Proof. reflexivity. Qed.
+
+(* on non-negative integers whose total is at most 2^53 the sum is the exact integer sum *)
+Definition Nsum (ns : list N) : N := fold_right N.add 0 ns.
+
+Lemma sum_exact_nats ns : forall acc, (0 <= acc)%Z -> (acc + Z.of_N (Nsum ns) <= p53)%Z ->
+  sum_exact (map (fun n => JNum (NPos n)) ns) acc = Some (acc + Z.of_N (Nsum ns))%Z.
+Proof.
+  induction ns as [|n t IH]; intros acc Hacc Hle; cbn [map sum_exact Nsum fold_right].
+  - f_equal. change (Z.of_N 0) with 0%Z. lia.
+  - fold (Nsum t) in *. cbn [Nsum fold_right] in Hle. fold (Nsum t) in Hle.
+    assert (Hs1 : small (Z.of_N n) = true) by (unfold small; apply Z.leb_le; lia).
+    assert (Hs2 : small (acc + Z.of_N n) = true) by (unfold small; apply Z.leb_le; lia).
+    rewrite Hs1, Hs2. cbn [andb]. rewrite IH by lia. f_equal. lia.
+Qed.
+
+Lemma forallb_is_num_nats ns : forallb is_num (map (fun n => JNum (NPos n)) ns) = true.
+Proof. induction ns as [|n t IH]; [reflexivity|exact IH]. Qed.
+
+Lemma sum_nats ns : (Z.of_N (Nsum ns) <= p53)%Z ->
+  pure_sem F_sum [Some (JArr (map (fun n => JNum (NPos n)) ns))]
+  = Some (Some (JNum (NPos (Nsum ns)))).
+Proof.
+  intros H. cbv [pure_sem core_fn sem_coll FunsColl.sum_sem arg nth_error].
+  rewrite forallb_is_num_nats. cbn [negb]. rewrite (sum_exact_nats ns 0%Z) by lia.
+  destruct (Z.ltb_spec (0 + Z.of_N (Nsum ns)) 0) as [Hlt|Hge]; [lia|].
+  do 4 f_equal. lia.
+Qed.
+
+End ListFolding.
+
+(* ====================================================================================== *)
+(* 3. list/list_manipulations: pop, pop_first, push, push_front, reverese, indexed,         *)
+(*    sort, sort_unique                                                                    *)
+(* ====================================================================================== *)
+
+(* ---- facts about the stable insertion sort `ssort` for an arbitrary comparison ---- *)
+Section SsortFacts.
+Context {A : Type} (cmp : A -> A -> comparison).
+Definition cle (a b : A) : Prop := cmp a b <> Gt.
+Hypothesis cmp_asym : forall a b, cmp a b = Gt -> cmp b a <> Gt.
+
+Lemma sinsert_perm x l : Permutation (sinsert cmp x l) (x :: l).
+Proof.
+  induction l as [|y t IH]; cbn [sinsert]; [apply Permutation_refl|].
+  destruct (cmp y x); try apply Permutation_refl;
+    (eapply Permutation_trans; [apply perm_skip, IH|apply perm_swap]).
+Qed.
+
+Lemma ssort_fold_perm l : forall acc,
+  Permutation (fold_left (fun acc x => sinsert cmp x acc) l acc) (l ++ acc).
+Proof.
+  induction l as [|x t IH]; intros acc; cbn [fold_left app]; [apply Permutation_refl|].
+  eapply Permutation_trans; [apply IH|].
+  eapply Permutation_trans; [apply Permutation_app_head, sinsert_perm|].
+  apply Permutation_sym, Permutation_middle.
+Qed.
+
+Lemma ssort_perm l : Permutation (ssort cmp l) l.
+Proof. unfold ssort. rewrite <- (app_nil_r l) at 2. apply ssort_fold_perm. Qed.
+
+Lemma sinsert_hdrel y x t : HdRel cle y t -> cle y x -> HdRel cle y (sinsert cmp x t).
+Proof.
+  intros Hh Hyx. destruct t as [|z t']; cbn [sinsert]; [now constructor|].
+  destruct (cmp z x); constructor; try exact Hyx; now inversion Hh.
+Qed.
+
+Lemma sinsert_sorted x l : Sorted cle l -> Sorted cle (sinsert cmp x l).
+Proof.
+  induction l as [|y t IH]; intros Hs; cbn [sinsert]; [repeat constructor|].
+  inversion Hs as [|? ? Hst Hhd]; subst.
+  destruct (cmp y x) eqn:E.
+  - constructor; [now apply IH|]. apply sinsert_hdrel; [exact Hhd|]. unfold cle. now rewrite E.
+  - constructor; [now apply IH|]. apply sinsert_hdrel; [exact Hhd|]. unfold cle. now rewrite E.
+  - constructor; [exact Hs|]. constructor. now apply cmp_asym.
+Qed.
+
+Lemma ssort_sorted l : Sorted cle (ssort cmp l).
+Proof.
+  unfold ssort. assert (H : Sorted cle (@nil A)) by constructor. revert H. generalize (@nil A).
+  induction l as [|x t IH]; intros acc Hacc; cbn [fold_left]; [exact Hacc|].
+  apply IH. now apply sinsert_sorted.
+Qed.
+
+Lemma ssort_length l : length (ssort cmp l) = length l.
+Proof. apply Permutation_length, ssort_perm. Qed.
+End SsortFacts.
+
+Section ListManipulations.
+
+Lemma jcmpS_asym a b : jcmpS a b = Gt -> jcmpS b a <> Gt.
+Proof. unfold jcmpS. intros H. rewrite (jcmp_antisym show b a), H. discriminate. Qed.
+
+Lemma jcmpS_cle_trans : Relations_1.Transitive (cle jcmpS).
+Proof. intros a b c Hab Hbc. exact (jcmp_trans_le show a b c Hab Hbc). Qed.
+
+(* pop: "If the argument is a list, will return the list without it's last argument." *)
+Lemma pop_spec l : pure_sem F_pop [Some (JArr l)] = Some (Some (JArr (removelast l))).
+Proof. reflexivity. Qed.
+Lemma pop_snoc l x : pure_sem F_pop [Some (JArr (l ++ [x]))] = Some (Some (JArr l)).
+Proof. rewrite pop_spec. now rewrite removelast_last. Qed.
+Lemma pop_empty : pure_sem F_pop [Some (JArr [])] = Some (Some (JArr [])).
+Proof. reflexivity. Qed.
+
+(* pop_first: "If the argument is a list, will return the list without it's first argument." *)
+Lemma pop_first_spec l : pure_sem F_pop_first [Some (JArr l)] = Some (Some (JArr (tl l))).
+Proof. reflexivity. Qed.
+Lemma pop_first_cons x l : pure_sem F_pop_first [Some (JArr (x :: l))] = Some (Some (JArr l)).
+Proof. reflexivity. Qed.
+Lemma pop_first_empty : pure_sem F_pop_first [Some (JArr [])] = Some (Some (JArr [])).
+Proof. reflexivity. Qed.
+
+(* push: "If the first argument is a list, will iterate over all the other arguments and add them
+   to the list if they exists." *)
+Lemma push_spec l rest : pure_sem F_push (Some (JArr l) :: rest) = Some (Some (JArr (l ++ present rest))).
+Proof. reflexivity. Qed.
+Lemma present_all_some vs : present (map Some vs) = vs.
+Proof. induction vs as [|v t IH]; [reflexivity|]. cbn [map present]. now rewrite IH. Qed.
+Lemma push_values l vs :
+  pure_sem F_push (Some (JArr l) :: map Some vs) = Some (Some (JArr (l ++ vs))).
+Proof. now rewrite push_spec, present_all_some. Qed.
+(* example `(push ["a"] (push 1 1))` = ["a"] : an absent argument is skipped *)
+Lemma push_absent_skipped l rest :
+  pure_sem F_push (Some (JArr l) :: None :: rest) = pure_sem F_push (Some (JArr l) :: rest).
+Proof. reflexivity. Qed.
+
+(* push_front: "Add items to the from of a list." — each argument in turn goes to the front, so
+   `(push_front [] 1 2 3 4)` = [4, 3, 2, 1] *)
+Lemma push_front_spec l rest :
+  pure_sem F_push_front (Some (JArr l) :: rest) = Some (Some (JArr (rev (present rest) ++ l))).
+Proof. reflexivity. Qed.
+Lemma push_front_values l vs :
+  pure_sem F_push_front (Some (JArr l) :: map Some vs) = Some (Some (JArr (rev vs ++ l))).
+Proof. now rewrite push_front_spec, present_all_some. Qed.
+
+(* reverese: "Reveres the order of a list." *)
+Lemma reverese_spec l : pure_sem F_reverese [Some (JArr l)] = Some (Some (JArr (rev l))).
+Proof. reflexivity. Qed.
+Lemma reverese_involutive l :
+  pure_sem F_reverese [Some (JArr (rev l))] = Some (Some (JArr l)).
+Proof. now rewrite reverese_spec, rev_involutive. Qed.
+Lemma reverese_nth (l : list json) i : (i < length l)%nat ->
+  nth_error (rev l) i = nth_error l (length l - S i).
+Proof.
+  intros H. destruct (nth_error l (length l - S i)) as [v|] eqn:E.
+  - rewrite (nth_error_nth' (rev l) v) by (now rewrite rev_length).
+    rewrite rev_nth by exact H. f_equal. now apply nth_error_nth.
+  - apply nth_error_None in E. lia.
+Qed.
+
+(* indexed: "each element in the new list is an object with two elements: `index` with the index
+   of the element in the list, `value` with the element in the original list" *)
+Definition indexed_item (p : nat * json) : json :=
+  JObj [(k_value, snd p); (k_index, JNum (NPos (N.of_nat (fst p))))].
+
+Lemma indexed_go_spec l : forall i,
+  indexed_go i l = map indexed_item (combine (seq i (length l)) l).
+Proof.
+  induction l as [|v t IH]; intros i; [reflexivity|].
+  cbn [indexed_go length seq combine map]. now rewrite IH.
+Qed.
+
+Lemma indexed_spec l :
+  pure_sem F_indexed [Some (JArr l)]
+  = Some (Some (JArr (map indexed_item (combine (seq 0 (length l)) l)))).
+Proof. cbv [pure_sem core_fn sem_coll on_array arg nth_error]. now rewrite indexed_go_spec. Qed.
+
+Lemma indexed_length l r : pure_sem F_indexed [Some (JArr l)] = Some (Some (JArr r)) -> length r = length l.
+Proof.
+  rewrite indexed_spec. intros H. injection H as <-.
+  rewrite map_length, combine_length, seq_length. lia.
+Qed.
+
+Lemma indexed_nth l i v : nth_error l i = Some v ->
+  exists r, pure_sem F_indexed [Some (JArr l)] = Some (Some (JArr r))
+            /\ nth_error r i = Some (indexed_item (i, v)).
+Proof.
+  intros H. eexists. split; [apply indexed_spec|].
+  assert (Hi : (i < length l)%nat) by (apply nth_error_Some; congruence).
+  rewrite nth_error_map.
+  assert (Hc : nth_error (combine (seq 0 (length l)) l) i = Some (i, v)).
+  { rewrite (nth_error_nth' _ (O, v)) by (rewrite combine_length, seq_length; lia).
+    rewrite combine_nth by apply seq_length. rewrite seq_nth by exact Hi.
+    f_equal. f_equal. now apply nth_error_nth. }
+  now rewrite Hc.
+Qed.
+
+(* sort: "If the first argument is a list, return list sorted." *)
+Lemma sort_spec l : pure_sem F_sort [Some (JArr l)] = Some (Some (JArr (ssort jcmpS l))).
+Proof. reflexivity. Qed.
+
+Lemma sort_perm l : exists r,
+  pure_sem F_sort [Some (JArr l)] = Some (Some (JArr r)) /\ Permutation r l.
+Proof. exists (ssort jcmpS l). split; [reflexivity|apply ssort_perm]. Qed.
+
+Lemma sort_sorted l : exists r,
+  pure_sem F_sort [Some (JArr l)] = Some (Some (JArr r)) /\ Sorted (fun a b => jcmpS a b <> Gt) r.
+Proof. exists (ssort jcmpS l). split; [reflexivity|]. apply (ssort_sorted jcmpS jcmpS_asym). Qed.
+
+(* every earlier element is <= every later element *)
+Lemma sort_strongly_sorted l : exists r,
+  pure_sem F_sort [Some (JArr l)] = Some (Some (JArr r))
+  /\ StronglySorted (fun a b => jcmpS a b <> Gt) r.
+Proof.
+  exists (ssort jcmpS l). split; [reflexivity|].
+  apply Sorted_StronglySorted; [exact jcmpS_cle_trans|apply (ssort_sorted jcmpS jcmpS_asym)].
+Qed.
+
+Lemma sort_length l r : pure_sem F_sort [Some (JArr l)] = Some (Some (JArr r)) -> length r = length l.
+Proof. rewrite sort_spec. intros H. injection H as <-. apply ssort_length. Qed.
+
+(* sort_unique: "If the first argument is a list, return list sorted without duplicates." *)
+Lemma sort_unique_spec l :
+  pure_sem F_sort_unique [Some (JArr l)] = Some (Some (JArr (dedup (ssort jcmpS l)))).
+Proof. reflexivity. Qed.
+
+Lemma dedup_from_incl k l x : In x (dedup_from k l) -> In x l.
+Proof.
+  revert k. induction l as [|y t IH]; intros k H; [destruct H|]. cbn [dedup_from] in H.
+  destruct (jeqb y k).
+  - right. eapply IH. exact H.
+  - destruct H as [->|H]; [now left|right; eapply IH; exact H].
+Qed.
+Lemma dedup_incl l x : In x (dedup l) -> In x l.
+Proof.
+  destruct l as [|y t]; [intros []|]. cbn [dedup]. intros [->|H]; [now left|].
+  right. eapply dedup_from_incl. exact H.
+Qed.
+
+(* nothing but duplicates is removed: a dropped element equals (==) a retained one *)
+Lemma dedup_from_covers k l x : In x l ->
+  In x (dedup_from k l) \/ exists y, In y (k :: dedup_from k l) /\ jeqb x y = true.
+Proof.
+  revert k. induction l as [|z t IH]; intros k H; [destruct H|]. cbn [dedup_from].
+  destruct (jeqb z k) eqn:E.
+  - destruct H as [->|H].
+    + right. exists k. split; [now left|exact E].
+    + apply IH, H.
+  - destruct H as [->|H]; [left; now left|].
+    destruct (IH z H) as [Hin|(y & Hy & Hxy)]; [left; now right|].
+    right. exists y. split; [now right|exact Hxy].
+Qed.
+Lemma dedup_covers l x : In x l -> In x (dedup l) \/ exists y, In y (dedup l) /\ jeqb x y = true.
+Proof.
+  destruct l as [|z t]; [intros []|]. cbn [dedup]. intros [->|H]; [left; now left|].
+  destruct (dedup_from_covers z t x H) as [Hin|Hex]; [left; now right|right; exact Hex].
+Qed.
+
+(* no two neighbours of the result are equal (==) *)
+Lemma dedup_from_no_adjacent k l :
+  Sorted (fun a b => jeqb b a = false) (dedup_from k l)
+  /\ HdRel (fun a b => jeqb b a = false) k (dedup_from k l).
+Proof.
+  revert k. induction l as [|z t IH]; intros k; cbn [dedup_from]; [split; constructor|].
+  destruct (jeqb z k) eqn:E; [apply IH|].
+  destruct (IH z) as [Hs Hh]. split; constructor; assumption.
+Qed.
+Lemma dedup_no_adjacent l : Sorted (fun a b => jeqb b a = false) (dedup l).
+Proof.
+  destruct l as [|z t]; [constructor|]. cbn [dedup].
+  destruct (dedup_from_no_adjacent z t) as [Hs Hh]. now constructor.
+Qed.
+
+Lemma sort_unique_subset l : exists r,
+  pure_sem F_sort_unique [Some (JArr l)] = Some (Some (JArr r))
+  /\ (forall x, In x r -> In x l)
+  /\ (forall x, In x l -> In x r \/ exists y, In y r /\ jeqb x y = true)
+  /\ Sorted (fun a b => jeqb b a = false) r.
+Proof.
+  exists (dedup (ssort jcmpS l)). split; [reflexivity|]. split; [|split].
+  - intros x Hx. apply dedup_incl in Hx.
+    eapply Permutation_in; [apply ssort_perm|exact Hx].
+  - intros x Hx. apply dedup_covers.
+    eapply Permutation_in; [apply Permutation_sym, ssort_perm|exact Hx].
+  - apply dedup_no_adjacent.
+Qed.
+
+(* wrong type: examples `(pop false)`, `(reverese 1)`, `(sort 344)`, `(indexed {})`, `(push -4 -4)` *)
+Lemma list_manip_wrong_type f vals :
+  In f [F_pop; F_pop_first; F_push; F_push_front; F_reverese; F_sort; F_sort_unique; F_indexed] ->
+  not_arr (arg vals 0%nat) -> pure_sem f vals = Some None.
+Proof.
+  intros Hf H. cbv [In] in Hf.
+  repeat (destruct Hf as [<-|Hf]; [cbv [pure_sem core_fn sem_coll on_array];
+    destruct (arg vals 0%nat) as [[| | | | |]|]; try reflexivity; destruct H|]).
+  destruct Hf.
+Qed.
+Lemma pop_wrong_type vals : not_arr (arg vals 0%nat) -> pure_sem F_pop vals = Some None.
+Proof. apply list_manip_wrong_type. cbv [In]. tauto. Qed.
+Lemma push_wrong_type vals : not_arr (arg vals 0%nat) -> pure_sem F_push vals = Some None.
+Proof. apply list_manip_wrong_type. cbv [In]. tauto. Qed.
+
+End ListManipulations.
+
+(* ====================================================================================== *)
+(* 4. list/list_producers: range, zip, cross                                               *)
+(* ====================================================================================== *)
+Section ListProducers.
+
+(* range: "Create a new list with items from 0 to the second argument." example `(range 4)` = [0,1,2,3] *)
+Lemma range_spec n :
+  pure_sem F_range [Some (JNum (NPos n))]
+  = Some (Some (JArr (map (fun i => JNum (NPos (N.of_nat i))) (seq 0 (N.to_nat n))))).
+Proof. reflexivity. Qed.
+
+Lemma range_length n r :
+  pure_sem F_range [Some (JNum (NPos n))] = Some (Some (JArr r)) -> length r = N.to_nat n.
+Proof. rewrite range_spec. intros H. injection H as <-. now rewrite map_length, seq_length. Qed.
+
+Lemma range_nth n r i : (i < N.to_nat n)%nat ->
+  pure_sem F_range [Some (JNum (NPos n))] = Some (Some (JArr r)) ->
+  nth_error r i = Some (JNum (NPos (N.of_nat i))).
+Proof.
+  intros Hi. rewrite range_spec. intros H. injection H as <-.
+  rewrite nth_error_map. rewrite (nth_error_nth' _ O) by (now rewrite seq_length).
+  now rewrite seq_nth.
+Qed.
+
+Lemma range_zero : pure_sem F_range [Some (JNum (NPos 0))] = Some (Some (JArr [])).
+Proof. reflexivity. Qed.
+
+(* "If the second argument is not a positive integer, return nothing." (examples -4, [1,2,3,4]) *)
+Lemma range_wrong_type vals : not_usize (arg vals 0%nat) -> pure_sem F_range vals = Some None.
+Proof.
+  intros H. apply not_usize_cases in H. cbv [pure_sem core_fn sem_coll].
+  destruct (arg vals 0%nat) as [[| | |[]| |]|]; try reflexivity; destruct H.
+Qed.
+
+(* ---- zip / cross: "All the arguments must be lists." ---- *)
+Lemma all_arrays_not_arr vals : (exists v, In v vals /\ not_arr v) -> all_arrays vals = None.
+Proof.
+  induction vals as [|x t IH]; intros (v & Hin & Hv); [destruct Hin|].
+  destruct Hin as [->|Hin].
+  - destruct v as [[| | | | |]|]; try reflexivity. destruct Hv.
+  - cbn [all_arrays]. destruct x as [[| | | | |]|]; try reflexivity.
+    rewrite IH; [reflexivity|]. exists v. now split.
+Qed.
+Lemma zip_wrong_type vals : (exists v, In v vals /\ not_arr v) -> pure_sem F_zip vals = Some None.
+Proof. intros H. cbv [pure_sem core_fn sem_coll]. now rewrite all_arrays_not_arr. Qed.
+Lemma cross_wrong_type vals : (exists v, In v vals /\ not_arr v) -> pure_sem F_cross vals = Some None.
+Proof. intros H. cbv [pure_sem core_fn sem_coll]. now rewrite all_arrays_not_arr. Qed.
+
+(* zip: "The output will be a list of object, with keys in the format ".i" where i is the index
+   list."  The result is as long as the longest list; a list that is too short contributes no key
+   (second example of the documentation). *)
+Definition opt_entry (k : str) (o : option json) : list (str * json) :=
+  match o with Some v => [(k, v)] | None => [] end.
+
+Lemma zip_two_general l1 l2 :
+  pure_sem F_zip [Some (JArr l1); Some (JArr l2)]
+  = Some (Some (JArr (map (fun idx => JObj (opt_entry (dot_key 0) (nth_error l1 idx)
+                                             ++ opt_entry (dot_key 1) (nth_error l2 idx)))
+                          (seq 0 (Nat.max (length l1) (length l2)))))).
+Proof.
+  cbv [pure_sem core_fn sem_coll all_arrays option_map max_len fold_left].
+  do 3 f_equal. apply map_ext. intros idx. cbn [zip_row].
+  destruct (nth_error l1 idx), (nth_error l2 idx); reflexivity.
+Qed.
+
+Lemma map_seq_combine {A B C} (f : option A -> option B -> C) (l1 : list A) : forall (l2 : list B),
+  length l1 = length l2 ->
+  map (fun i => f (nth_error l1 i) (nth_error l2 i)) (seq 0 (length l1))
+  = map (fun p => f (Some (fst p)) (Some (snd p))) (combine l1 l2).
+Proof.
+  induction l1 as [|a t IH]; intros [|b t2] Hlen; try discriminate Hlen; [reflexivity|].
+  cbn [length seq map combine nth_error fst snd]. f_equal.
+  rewrite <- seq_shift, map_map. cbn [nth_error]. apply IH. now injection Hlen.
+Qed.
+
+(* lists of the same length: zip is `combine`, element order preserved *)
+Lemma zip_two_spec l1 l2 : length l1 = length l2 ->
+  pure_sem F_zip [Some (JArr l1); Some (JArr l2)]
+  = Some (Some (JArr (map (fun p => JObj [(dot_key 0, fst p); (dot_key 1, snd p)]) (combine l1 l2)))).
+Proof.
+  intros H. rewrite zip_two_general. rewrite <- H, Nat.max_id.
+  rewrite (map_seq_combine (fun a b => JObj (opt_entry (dot_key 0) a ++ opt_entry (dot_key 1) b)) l1 l2 H).
+  reflexivity.
+Qed.
+
+(* cross: "Join a few list (i.e. Cartesian product) into a new list. The output will be a list
+   of object, with keys in the format ".i"."  The first list varies fastest (see the example). *)
+Lemma flat_map_singleton {A B} (f : A -> B) l : flat_map (fun x => [f x]) l = map f l.
+Proof. induction l as [|x t IH]; [reflexivity|]. cbn [flat_map map app]. now rewrite IH. Qed.
+Lemma map_flat_map {A B C} (f : B -> C) (g : A -> list B) l :
+  map f (flat_map g l) = flat_map (fun x => map f (g x)) l.
+Proof. induction l as [|x t IH]; [reflexivity|]. cbn [flat_map]. now rewrite map_app, IH. Qed.
+
+Lemma cross_two_spec l1 l2 :
+  pure_sem F_cross [Some (JArr l1); Some (JArr l2)]
+  = Some (Some (JArr (flat_map (fun b => map (fun a => JObj [(dot_key 0, a); (dot_key 1, b)]) l1) l2))).
+Proof.
+  cbv [pure_sem core_fn sem_coll all_arrays option_map cross_go].
+  do 3 f_equal. cbn [map]. rewrite flat_map_singleton, map_flat_map.
+  apply flat_map_ext. intros b. rewrite !map_map. apply map_ext. intros a. reflexivity.
+Qed.
+
+Lemma cross_two_length l1 l2 r :
+  pure_sem F_cross [Some (JArr l1); Some (JArr l2)] = Some (Some (JArr r)) ->
+  length r = (length l2 * length l1)%nat.
+Proof.
+  rewrite cross_two_spec. intros H. injection H as <-.
+  induction l2 as [|b t IH]; [reflexivity|].
+  cbn [flat_map]. rewrite app_length, map_length, IH. reflexivity.
+Qed.
+
+End ListProducers.
+
+(* ====================================================================================== *)
+(* 5. object: keys, values, entries, put, insert_if_absent, replace_if_exists,              *)
+(*    sort_by_keys, sort_by_values                                                         *)
+(* ====================================================================================== *)
+Section Objects.
+
+(* keys: "Get the list of keys from an object."  (member order) *)
+Lemma keys_spec m : pure_sem F_keys [Some (JObj m)] = Some (Some (JArr (map JStr (map fst m)))).
+Proof. cbv [pure_sem core_fn sem_coll on_object arg nth_error]. now rewrite map_map. Qed.
+
+(* values: "Get the list of values from an object." *)
+Lemma values_spec m : pure_sem F_values [Some (JObj m)] = Some (Some (JArr (map snd m))).
+Proof. reflexivity. Qed.
+
+(* entries: "Each item of the list will be an object with `key` and `value` entries".
+   MEMBER ORDER: the code inserts `value` first and `key` second, so an entry prints as
+   {"value": 1, "key": "key-1"}; the documentation example shows {"key": "key-1", "value": 1}
+   (the example test compares IndexMaps, which ignores member order). *)
+Definition entry_item (kv : str * json) : json := JObj [(k_value, snd kv); (k_key, JStr (fst kv))].
+Lemma entries_spec m : pure_sem F_entries [Some (JObj m)] = Some (Some (JArr (map entry_item m))).
+Proof. reflexivity. Qed.
+
+Lemma keys_values_length m ks vs :
+  pure_sem F_keys [Some (JObj m)] = Some (Some (JArr ks)) ->
+  pure_sem F_values [Some (JObj m)] = Some (Some (JArr vs)) ->
+  length ks = length m /\ length vs = length m.
+Proof.
+  rewrite keys_spec, values_spec. intros H1 H2. injection H1 as <-. injection H2 as <-.
+  now rewrite !map_length.
+Qed.
+
+(* the i-th key, value and entry belong to the i-th member *)
+Lemma keys_values_entries_nth m i k v : nth_error m i = Some (k, v) ->
+  nth_error (map JStr (map fst m)) i = Some (JStr k)
+  /\ nth_error (map snd m) i = Some v
+  /\ nth_error (map entry_item m) i = Some (JObj [(k_value, v); (k_key, JStr k)]).
+Proof.
+  intros H. rewrite map_map, !nth_error_map, H. repeat split; reflexivity.
+Qed.
+
+Lemma object_to_list_wrong_type f vals : In f [F_keys; F_values; F_entries; F_sort_by_keys; F_sort_by_values] ->
+  not_obj (arg vals 0%nat) -> pure_sem f vals = Some None.
+Proof.
+  intros Hf H. cbv [In] in Hf.
+  repeat (destruct Hf as [<-|Hf]; [cbv [pure_sem core_fn sem_coll on_object];
+    destruct (arg vals 0%nat) as [[| | | | |]|]; try reflexivity; destruct H|]).
+  destruct Hf.
+Qed.
+Lemma keys_wrong_type vals : not_obj (arg vals 0%nat) -> pure_sem F_keys vals = Some None.
+Proof. apply object_to_list_wrong_type. cbv [In]. tauto. Qed.
+Lemma values_wrong_type vals : not_obj (arg vals 0%nat) -> pure_sem F_values vals = Some None.
+Proof. apply object_to_list_wrong_type. cbv [In]. tauto. Qed.
+Lemma entries_wrong_type vals : not_obj (arg vals 0%nat) -> pure_sem F_entries vals = Some None.
+Proof. apply object_to_list_wrong_type. cbv [In]. tauto. Qed.
+
+(* ---- IndexMap insert / get ---- *)
+Lemma obj_get_insert_same k v m : obj_get k (obj_insert k v m) = Some v.
+Proof.
+  induction m as [|[k' v'] t IH]; cbn [obj_insert obj_get].
+  - now rewrite str_eqb_refl.
+  - destruct (str_eqb k k') eqn:E; cbn [obj_get]; rewrite E; [reflexivity|exact IH].
+Qed.
+Lemma obj_get_insert_other k k' v m : k' <> k -> obj_get k' (obj_insert k v m) = obj_get k' m.
+Proof.
+  intros Hne. induction m as [|[k2 v2] t IH]; cbn [obj_insert obj_get].
+  - now rewrite (str_eqb_neq k' k Hne).
+  - destruct (str_eqb k k2) eqn:E; cbn [obj_get].
+    + apply str_eqb_eq in E. subst k2. now rewrite (str_eqb_neq k' k Hne).
+    + destruct (str_eqb k' k2); [reflexivity|exact IH].
+Qed.
+(* insertion order: a present key keeps its place, a new key goes to the end *)
+Lemma obj_insert_keys k v m :
+  map fst (obj_insert k v m) = if obj_has k m then map fst m else map fst m ++ [k].
+Proof.
+  unfold obj_has. induction m as [|[k' v'] t IH]; cbn [obj_insert obj_get map fst app]; [reflexivity|].
+  destruct (str_eqb k k') eqn:E; cbn [map fst]; [reflexivity|].
+  rewrite IH. now destruct (obj_get k t).
+Qed.
+Lemma obj_insert_absent k v m : obj_has k m = false -> obj_insert k v m = m ++ [(k, v)].
+Proof.
+  unfold obj_has. induction m as [|[k' v'] t IH]; cbn [obj_insert obj_get app]; [reflexivity|].
+  destruct (str_eqb k k'); [discriminate|]. intros H. now rewrite IH.
+Qed.
+Lemma obj_insert_length k v m :
+  length (obj_insert k v m) = if obj_has k m then length m else S (length m).
+Proof.
+  rewrite <- (map_length fst), obj_insert_keys.
+  destruct (obj_has k m); rewrite ?app_length, map_length; cbn [length]; lia.
+Qed.
+
+(* put: "Add a new entry to a map. If the object has that key, it will be replaced." *)
+Lemma put_spec m k v :
+  pure_sem F_put [Some (JObj m); Some (JStr k); Some v] = Some (Some (JObj (obj_insert k v m))).
+Proof. reflexivity. Qed.
+Lemma put_then_get m k v r :
+  pure_sem F_put [Some (JObj m); Some (JStr k); Some v] = Some (Some r) ->
+  pure_sem F_get [Some r; Some (JStr k)] = Some (Some v).
+Proof. rewrite put_spec. intros H. injection H as <-. rewrite get_obj. now rewrite obj_get_insert_same. Qed.
+Lemma put_other_keys_unchanged m k v k' : k' <> k ->
+  pure_sem F_get [Some (JObj (obj_insert k v m)); Some (JStr k')]
+  = pure_sem F_get [Some (JObj m); Some (JStr k')].
+Proof. intros H. rewrite !get_obj. now rewrite obj_get_insert_other. Qed.
+
+(* insert_if_absent: "Add a new entry to a map if it has no such key. If the object has that key,
+   it will not be replaced." *)
+Lemma insert_if_absent_spec m k v :
+  pure_sem F_insert_if_absent [Some (JObj m); Some (JStr k); Some v]
+  = Some (Some (JObj (match obj_get k m with Some _ => m | None => m ++ [(k, v)] end))).
+Proof.
+  cbv [pure_sem core_fn sem_coll obj3 arg nth_error]. unfold obj_has at 1.
+  destruct (obj_get k m) eqn:E; [reflexivity|].
+  rewrite obj_insert_absent; [reflexivity|]. unfold obj_has. now rewrite E.
+Qed.
+
+(* replace_if_exists: "Add a new entry to a map if it has such key. If the object dosen't has that
+   key, it will not be replaced." *)
+Lemma replace_if_exists_spec m k v :
+  pure_sem F_replace_if_exists [Some (JObj m); Some (JStr k); Some v]
+  = Some (Some (JObj (match obj_get k m with Some _ => obj_insert k v m | None => m end))).
+Proof.
+  cbv [pure_sem core_fn sem_coll obj3 arg nth_error]. unfold obj_has.
+  now destruct (obj_get k m).
+Qed.
+Lemma replace_if_exists_keeps_keys m k v r :
+  pure_sem F_replace_if_exists [Some (JObj m); Some (JStr k); Some v] = Some (Some (JObj r)) ->
+  map fst r = map fst m.
+Proof.
+  rewrite replace_if_exists_spec. intros H. injection H as <-.
+  destruct (obj_get k m) eqn:E; [|reflexivity].
+  rewrite obj_insert_keys. unfold obj_has. now rewrite E.
+Qed.
+
+(* "The first argument should be an object. The second argument should be a key. The third
+   argument should be a value." : otherwise nothing *)
+Lemma obj3_wrong f vals : In f [F_put; F_insert_if_absent; F_replace_if_exists] ->
+  not_obj (arg vals 0%nat) \/ not_str (arg vals 1%nat) \/ arg vals 2%nat = None ->
+  pure_sem f vals = Some None.
+Proof.
+  intros Hf H. cbv [In] in Hf.
+  repeat (destruct Hf as [<-|Hf]; [cbv [pure_sem core_fn sem_coll obj3];
+    destruct (arg vals 0%nat) as [[| | | | |]|], (arg vals 1%nat) as [[| | | | |]|],
+             (arg vals 2%nat) as [|]; try reflexivity;
+    destruct H as [H|[H|H]]; solve [destruct H | discriminate H]|]).
+  destruct Hf.
+Qed.
+Lemma put_wrong_type vals :
+  not_obj (arg vals 0%nat) \/ not_str (arg vals 1%nat) \/ arg vals 2%nat = None ->
+  pure_sem F_put vals = Some None.
+Proof. apply obj3_wrong. cbv [In]. tauto. Qed.
+
+(* sort_by_keys: "If the first argument is an object, return object sorted by it's keys." *)
+Lemma str_cmp_fst_asym (a b : str * json) :
+  str_cmp (fst a) (fst b) = Gt -> str_cmp (fst b) (fst a) <> Gt.
+Proof.
+  intros H. destruct (ord_ok_str (fst b)) as (_ & HA & _). rewrite (HA (fst a)), H. discriminate.
+Qed.
+Lemma sort_by_keys_spec m : exists r,
+  pure_sem F_sort_by_keys [Some (JObj m)] = Some (Some (JObj r))
+  /\ Permutation r m
+  /\ Sorted (fun a b => str_cmp (fst a) (fst b) <> Gt) r.
+Proof.
+  exists (ssort (fun a b => str_cmp (fst a) (fst b)) m). split; [reflexivity|]. split.
+  - apply ssort_perm.
+  - apply (ssort_sorted (fun a b => str_cmp (fst a) (fst b)) str_cmp_fst_asym).
+Qed.
+
+(* sort_by_values: "If the first argument is an object, return object sorted by it's values." *)
+Lemma sort_by_values_spec m : exists r,
+  pure_sem F_sort_by_values [Some (JObj m)] = Some (Some (JObj r))
+  /\ Permutation r m
+  /\ Sorted (fun a b => jcmpS (snd a) (snd b) <> Gt) r.
+Proof.
+  exists (ssort (fun a b => jcmpS (snd a) (snd b)) m). split; [reflexivity|]. split.
+  - apply ssort_perm.
+  - apply (ssort_sorted (fun a b => jcmpS (snd a) (snd b))). intros a b. apply jcmpS_asym.
+Qed.
+
+End Objects.
+
+(* ====================================================================================== *)
+(* 6. string: concat, head, tail, split; type_group: as_*, is_*                            *)
+(* ====================================================================================== *)
+Section Strings.
+
+(* concat: "Concat all string arguments." *)
+Lemma all_strings_concat ss : all_strings (map (fun s => Some (JStr s)) ss) = Some (concat ss).
+Proof. induction ss as [|s t IH]; [reflexivity|]. cbn [map all_strings concat]. now rewrite IH. Qed.
+Lemma concat_spec ss :
+  pure_sem F_concat (map (fun s => Some (JStr s)) ss) = Some (Some (JStr (concat ss))).
+Proof. cbv [pure_sem core_fn sem_coll]. now rewrite all_strings_concat. Qed.
+Lemma concat_two a b : pure_sem F_concat [Some (JStr a); Some (JStr b)] = Some (Some (JStr (a ++ b))).
+Proof. cbv [pure_sem core_fn sem_coll all_strings option_map]. now rewrite app_nil_r. Qed.
+(* example `(concat "one" " " 2)` : nothing *)
+Lemma all_strings_not_str vals : (exists v, In v vals /\ not_str v) -> all_strings vals = None.
+Proof.
+  induction vals as [|x t IH]; intros (v & Hin & Hv); [destruct Hin|].
+  destruct Hin as [->|Hin].
+  - destruct v as [[| | | | |]|]; try reflexivity. destruct Hv.
+  - cbn [all_strings]. destruct x as [[| | | | |]|]; try reflexivity.
+    rewrite IH; [reflexivity|]. exists v. now split.
+Qed.
+Lemma concat_wrong_type vals : (exists v, In v vals /\ not_str v) -> pure_sem F_concat vals = Some None.
+Proof. intros H. cbv [pure_sem core_fn sem_coll]. now rewrite all_strings_not_str. Qed.
+
+(* head: "the returned value will be a string with the beggining of the first argument." *)
+Lemma head_spec s n :
+  pure_sem F_head [Some (JStr s); Some (JNum (NPos n))] = Some (Some (JStr (firstn (N.to_nat n) s))).
+Proof. psem. now rewrite take_n_firstn. Qed.
+Lemma head_is_take s n :
+  pure_sem F_head [Some (JStr s); Some (JNum (NPos n))] = pure_sem F_take [Some (JStr s); Some (JNum (NPos n))].
+Proof. now rewrite head_spec, take_str. Qed.
+Lemma head_all s n : (length s <= N.to_nat n)%nat ->
+  pure_sem F_head [Some (JStr s); Some (JNum (NPos n))] = Some (Some (JStr s)).
+Proof. intros H. rewrite head_spec. now rewrite firstn_all2. Qed.
+
+(* tail: "the returned value will be a string with the end of the first argument. See also
+   take_last."  WHAT THE CODE DOES: it SKIPS the first N characters (it does not keep the last N),
+   and returns the whole string when N exceeds the length. *)
+Lemma tail_spec s n :
+  pure_sem F_tail [Some (JStr s); Some (JNum (NPos n))]
+  = Some (Some (JStr (if (length s <? N.to_nat n)%nat then s else skipn (N.to_nat n) s))).
+Proof. psem. rewrite len_N_lt. now rewrite skip_n_skipn. Qed.
+Lemma tail_length s n r : (N.to_nat n <= length s)%nat ->
+  pure_sem F_tail [Some (JStr s); Some (JNum (NPos n))] = Some (Some (JStr r)) ->
+  length r = (length s - N.to_nat n)%nat.
+Proof.
+  intros Hn. rewrite tail_spec. destruct (Nat.ltb_spec (length s) (N.to_nat n)) as [H|H]; [lia|].
+  intros E. injection E as <-. apply skipn_length.
+Qed.
+(* head and tail with the same N split the string *)
+Lemma head_tail_partition s n h t : (N.to_nat n <= length s)%nat ->
+  pure_sem F_head [Some (JStr s); Some (JNum (NPos n))] = Some (Some (JStr h)) ->
+  pure_sem F_tail [Some (JStr s); Some (JNum (NPos n))] = Some (Some (JStr t)) ->
+  h ++ t = s.
+Proof.
+  intros Hn. rewrite head_spec, tail_spec.
+  destruct (Nat.ltb_spec (length s) (N.to_nat n)) as [H|H]; [lia|].
+  intros E1 E2. injection E1 as <-. injection E2 as <-. apply firstn_skipn.
+Qed.
+(* tail agrees with take_last exactly when N is half the length (the documented example:
+   "test-123", 4), when N exceeds the length, or trivially; otherwise the two differ *)
+Lemma tail_vs_take_last s n : (N.to_nat n <= length s)%nat ->
+  (pure_sem F_tail [Some (JStr s); Some (JNum (NPos n))]
+   = pure_sem F_take_last [Some (JStr s); Some (JNum (NPos n))])
+  <-> length s = (2 * N.to_nat n)%nat.
+Proof.
+  intros Hn. rewrite tail_spec, take_last_str.
+  destruct (Nat.ltb_spec (length s) (N.to_nat n)) as [H|H]; [lia|]. split.
+  - intros E. injection E as E. apply (f_equal (@length N)) in E. rewrite !skipn_length in E. lia.
+  - intros E. replace (length s - N.to_nat n)%nat with (N.to_nat n) by lia. reflexivity.
+Qed.
+
+Lemma str_num_wrong f vals : In f [F_head; F_tail] ->
+  not_str (arg vals 0%nat) \/ not_usize (arg vals 1%nat) -> pure_sem f vals = Some None.
+Proof.
+  intros Hf H. rewrite not_usize_cases in H. cbv [In] in Hf.
+  repeat (destruct Hf as [<-|Hf]; [cbv [pure_sem core_fn sem_coll str_num_sem];
+    destruct (arg vals 0%nat) as [[| | | | |]|], (arg vals 1%nat) as [[| | |[]| |]|];
+    try reflexivity; destruct H as [H|H]; destruct H|]).
+  destruct Hf.
+Qed.
+
+(* split: "Split the string into array of strings." — joining the pieces with the separator
+   gives the string back; an empty separator splits at every character boundary *)
+Lemma split_spec s p :
+  pure_sem F_split [Some (JStr s); Some (JStr p)] = Some (Some (JArr (map JStr (split_str s p)))).
+Proof. reflexivity. Qed.
+
+Lemma is_prefix_app p s : is_prefix p s = true -> exists rest, s = p ++ rest.
+Proof.
+  revert s. induction p as [|a p IH]; intros s H; [now exists s|].
+  destruct s as [|b s]; [discriminate H|]. cbn [is_prefix] in H.
+  apply andb_true_iff in H as [Hab Hp]. apply N.eqb_eq in Hab. subst b.
+  destruct (IH s Hp) as (rest & ->). now exists rest.
+Qed.
+Lemma split_go_skip p q : forall cur rest, split_go p (length q) cur (q ++ rest) = split_go p O cur rest.
+Proof.
+  induction q as [|c q IH]; intros cur rest; [reflexivity|].
+  cbn [length app split_go]. apply IH.
+Qed.
+Lemma split_go_nonempty p : forall s k cur, split_go p k cur s <> [].
+Proof.
+  induction s as [|c t IH]; intros k cur; cbn [split_go]; [discriminate|].
+  destruct k; [|apply IH]. destruct (is_prefix p (c :: t)); [discriminate|apply IH].
+Qed.
+
+Lemma split_go_join p : p <> [] -> forall n s cur, (length s <= n)%nat ->
+  intercalate p (split_go p O cur s) = cur ++ s.
+Proof.
+  intros Hp. induction n as [|n IH]; intros s cur Hlen.
+  - destruct s; [|cbn [length] in Hlen; lia]. cbn. now rewrite !app_nil_r.
+  - destruct s as [|c t]; [cbn; now rewrite !app_nil_r|].
+    cbn [split_go]. destruct (is_prefix p (c :: t)) eqn:E.
+    + destruct (is_prefix_app _ _ E) as (rest & Hs).
+      destruct p as [|a p']; [contradiction|]. cbn [app] in Hs. injection Hs as -> ->.
+      cbn [length pred]. rewrite split_go_skip.
+      rewrite intercalate_cons by apply split_go_nonempty.
+      rewrite IH; [reflexivity|]. cbn [length] in Hlen. rewrite app_length in Hlen. lia.
+    + rewrite IH by (cbn [length] in Hlen; lia). now rewrite <- app_assoc.
+Qed.
+
+Lemma split_join s p : p <> [] -> intercalate p (split_str s p) = s.
+Proof.
+  intros Hp. unfold split_str. destruct p as [|a p']; [contradiction|].
+  now rewrite (split_go_join (a :: p') Hp (length s) s []).
+Qed.
+
+(* (join (split s p) p) = s for a non-empty separator *)
+Lemma split_then_join s p r : p <> [] ->
+  pure_sem F_split [Some (JStr s); Some (JStr p)] = Some (Some r) ->
+  pure_sem F_join [Some r; Some (JStr p)] = Some (Some (JStr s)).
+Proof.
+  intros Hp. rewrite split_spec. intros H. injection H as <-.
+  rewrite join_sep. now rewrite split_join.
+Qed.
+
+Lemma split_empty_separator s :
+  pure_sem F_split [Some (JStr s); Some (JStr [])]
+  = Some (Some (JArr (map JStr ([] :: map (fun c => [c]) s ++ [[]])))).
+Proof. reflexivity. Qed.
+
+Lemma split_wrong_type vals : not_str (arg vals 0%nat) \/ not_str (arg vals 1%nat) ->
+  pure_sem F_split vals = Some None.
+Proof.
+  intros H. cbv [pure_sem core_fn sem_coll].
+  destruct (arg vals 0%nat) as [[| | | | |]|], (arg vals 1%nat) as [[| | | | |]|];
+    try reflexivity; destruct H as [H|H]; destruct H.
+Qed.
+
+(* type_group/cast: "return the array if the argument is an array, nothing if it's not." etc. *)
+Lemma as_array_spec v : pure_sem F_as_array [v] = Some (match v with Some (JArr l) => Some (JArr l) | _ => None end).
+Proof. reflexivity. Qed.
+Lemma as_boolean_spec v : pure_sem F_as_boolean [v] = Some (match v with Some (JBool b) => Some (JBool b) | _ => None end).
+Proof. reflexivity. Qed.
+Lemma as_number_spec v : pure_sem F_as_number [v] = Some (match v with Some (JNum n) => Some (JNum n) | _ => None end).
+Proof. reflexivity. Qed.
+Lemma as_object_spec v : pure_sem F_as_object [v] = Some (match v with Some (JObj m) => Some (JObj m) | _ => None end).
+Proof. reflexivity. Qed.
+Lemma as_string_spec v : pure_sem F_as_string [v] = Some (match v with Some (JStr s) => Some (JStr s) | _ => None end).
+Proof. reflexivity. Qed.
+(* a cast is the identity or nothing *)
+Lemma cast_identity_or_nothing f v : In f [F_as_array; F_as_boolean; F_as_number; F_as_object; F_as_string] ->
+  pure_sem f [v] = Some v \/ pure_sem f [v] = Some None.
+Proof.
+  intros Hf. cbv [In] in Hf.
+  repeat (destruct Hf as [<-|Hf]; [destruct v as [[| | | | |]|]; (now left) || (now right)|]).
+  destruct Hf.
+Qed.
+
+(* type_group/check_types: "return true if the argument is an array." etc.; never nothing *)
+Lemma type_checks_spec v :
+  pure_sem F_is_array [v] = Some (Some (JBool (match v with Some (JArr _) => true | _ => false end)))
+  /\ pure_sem F_is_bool [v] = Some (Some (JBool (match v with Some (JBool _) => true | _ => false end)))
+  /\ pure_sem F_is_number [v] = Some (Some (JBool (match v with Some (JNum _) => true | _ => false end)))
+  /\ pure_sem F_is_object [v] = Some (Some (JBool (match v with Some (JObj _) => true | _ => false end)))
+  /\ pure_sem F_is_string [v] = Some (Some (JBool (match v with Some (JStr _) => true | _ => false end)))
+  /\ pure_sem F_is_null [v] = Some (Some (JBool (match v with Some JNull => true | _ => false end)))
+  /\ pure_sem F_is_empty [v] = Some (Some (JBool (match v with Some _ => false | None => true end))).
+Proof. repeat split; reflexivity. Qed.
+
+(* exactly one of the six type tests holds of a present value *)
+Lemma type_checks_partition (v : json) :
+  length (filter (fun f => match pure_sem f [Some v] with Some (Some (JBool true)) => true | _ => false end)
+                 [F_is_array; F_is_bool; F_is_number; F_is_object; F_is_string; F_is_null]) = 1%nat.
+Proof. destruct v; reflexivity. Qed.
+
+End Strings.
+
+(* ====================================================================================== *)
+(* 7. boolean/compare, boolean/logical, basic/flow                                         *)
+(* ====================================================================================== *)
+Section Booleans.
+
+(* =, != : "Compare two value and return true if both are equals / not equals." *)
+Lemma eq_spec a b : pure_sem F_eq [Some a; Some b] = Some (Some (JBool (jeqb a b))).
+Proof. reflexivity. Qed.
+Lemma neq_spec a b : pure_sem F_neq [Some a; Some b] = Some (Some (JBool (negb (jeqb a b)))).
+Proof. reflexivity. Qed.
+
+(* <, <=, >, >= : "return true if the first is smaller / smaller or equals / greater / greater or
+   equals than the second" — w.r.t. the total order `jcmpS` of values (impl Ord for JsonValue) *)
+Lemma cmp_functions a b :
+  pure_sem F_lt [Some a; Some b] = Some (Some (JBool (match jcmpS a b with Lt => true | _ => false end)))
+  /\ pure_sem F_lte [Some a; Some b] = Some (Some (JBool (match jcmpS a b with Gt => false | _ => true end)))
+  /\ pure_sem F_gt [Some a; Some b] = Some (Some (JBool (match jcmpS a b with Gt => true | _ => false end)))
+  /\ pure_sem F_gte [Some a; Some b] = Some (Some (JBool (match jcmpS a b with Lt => false | _ => true end))).
+Proof. repeat split; reflexivity. Qed.
+
+Lemma lt_iff a b : pure_sem F_lt [Some a; Some b] = Some (Some (JBool true)) <-> jcmpS a b = Lt.
+Proof. destruct (cmp_functions a b) as (-> & _). destruct (jcmpS a b); split; congruence. Qed.
+Lemma lte_iff a b : pure_sem F_lte [Some a; Some b] = Some (Some (JBool true)) <-> jcmpS a b <> Gt.
+Proof. destruct (cmp_functions a b) as (_ & -> & _). destruct (jcmpS a b); split; congruence. Qed.
+Lemma gt_iff a b : pure_sem F_gt [Some a; Some b] = Some (Some (JBool true)) <-> jcmpS a b = Gt.
+Proof. destruct (cmp_functions a b) as (_ & _ & -> & _). destruct (jcmpS a b); split; congruence. Qed.
+Lemma gte_iff a b : pure_sem F_gte [Some a; Some b] = Some (Some (JBool true)) <-> jcmpS a b <> Lt.
+Proof. destruct (cmp_functions a b) as (_ & _ & _ & ->). destruct (jcmpS a b); split; congruence. Qed.
+
+(* examples `(< 1 1)` = false, `(<= 1 1)` = true, `(> 1 1)` = false, `(>= 1 1)` = true *)
+Lemma cmp_same a :
+  pure_sem F_lt [Some a; Some a] = Some (Some (JBool false))
+  /\ pure_sem F_lte [Some a; Some a] = Some (Some (JBool true))
+  /\ pure_sem F_gt [Some a; Some a] = Some (Some (JBool false))
+  /\ pure_sem F_gte [Some a; Some a] = Some (Some (JBool true)).
+Proof.
+  destruct (cmp_functions a a) as (-> & -> & -> & ->). unfold jcmpS. rewrite (jcmp_refl show a).
+  repeat split; reflexivity.
+Qed.
+
+(* a < b is b > a, a <= b is b >= a *)
+Lemma lt_gt_dual a b : pure_sem F_lt [Some a; Some b] = pure_sem F_gt [Some b; Some a].
+Proof.
+  destruct (cmp_functions a b) as (-> & _). destruct (cmp_functions b a) as (_ & _ & -> & _).
+  unfold jcmpS. rewrite (jcmp_antisym show a b). now destruct (jcmp show b a).
+Qed.
+Lemma lte_gte_dual a b : pure_sem F_lte [Some a; Some b] = pure_sem F_gte [Some b; Some a].
+Proof.
+  destruct (cmp_functions a b) as (_ & -> & _). destruct (cmp_functions b a) as (_ & _ & _ & ->).
+  unfold jcmpS. rewrite (jcmp_antisym show a b). now destruct (jcmp show b a).
+Qed.
+(* >= is the negation of <, <= is the negation of > *)
+Lemma gte_not_lt a b bl :
+  pure_sem F_lt [Some a; Some b] = Some (Some (JBool bl)) ->
+  pure_sem F_gte [Some a; Some b] = Some (Some (JBool (negb bl))).
+Proof.
+  destruct (cmp_functions a b) as (-> & _ & _ & ->). intros H. injection H as <-.
+  now destruct (jcmpS a b).
+Qed.
+(* values of different types compare by type: null < boolean < string < number < object < array *)
+Lemma lt_by_type a b : (type_rank a < type_rank b)%N ->
+  pure_sem F_lt [Some a; Some b] = Some (Some (JBool true)).
+Proof. intros H. apply lt_iff. unfold jcmpS. now apply jcmp_rank. Qed.
+
+(* an absent operand gives nothing; operands of different types never do *)
+Lemma compare_absent f vals : In f [F_eq; F_neq; F_lt; F_lte; F_gt; F_gte] ->
+  arg vals 0%nat = None \/ arg vals 1%nat = None -> pure_sem f vals = Some None.
+Proof.
+  intros Hf H. cbv [In] in Hf.
+  repeat (destruct Hf as [<-|Hf]; [cbv [pure_sem core_fn core_sem cmp_sem];
+    destruct (arg vals 0%nat), (arg vals 1%nat); try reflexivity;
+    destruct H as [H|H]; discriminate H|]).
+  destruct Hf.
+Qed.
+Lemma compare_present f a b : In f [F_eq; F_neq; F_lt; F_lte; F_gt; F_gte] ->
+  exists r, pure_sem f [Some a; Some b] = Some (Some (JBool r)).
+Proof.
+  intros Hf. cbv [In] in Hf.
+  repeat (destruct Hf as [<-|Hf]; [eexists; reflexivity|]). destruct Hf.
+Qed.
+
+(* not: "Return false if the argument is true and true if the argument is false." *)
+Lemma not_spec b : pure_sem F_not [Some (JBool b)] = Some (Some (JBool (negb b))).
+Proof. reflexivity. Qed.
+Lemma not_wrong_type vals : not_bool (arg vals 0%nat) -> pure_sem F_not vals = Some None.
+Proof.
+  intros H. cbv [pure_sem core_fn core_sem].
+  destruct (arg vals 0%nat) as [[| | | | |]|]; try reflexivity; destruct H.
+Qed.
+
+(* xor: "Return true if one, and only one, of the argument is true." *)
+Lemma xor_spec a b : pure_sem F_xor [Some (JBool a); Some (JBool b)] = Some (Some (JBool (xorb a b))).
+Proof. reflexivity. Qed.
+Lemma xor_wrong_type vals : not_bool (arg vals 0%nat) \/ not_bool (arg vals 1%nat) ->
+  pure_sem F_xor vals = Some None.
+Proof.
+  intros H. cbv [pure_sem core_fn core_sem].
+  destruct (arg vals 0%nat) as [[| | | | |]|], (arg vals 1%nat) as [[| | | | |]|];
+    try reflexivity; destruct H as [H|H]; destruct H.
+Qed.
+
+(* and: "Return true if all the arguments are true, nothing if there is a non boolean argument and
+   false if there is a false argument."  The code scans from the left and stops at the first
+   argument that is not `true`; so the FIRST such argument decides. *)
+Definition jtrue : option json := Some (JBool true).
+Definition jfalse : option json := Some (JBool false).
+
+Lemma and_bools bs :
+  pure_sem F_and (map (fun b => Some (JBool b)) bs) = Some (Some (JBool (forallb (fun b => b) bs))).
+Proof.
+  cbv [pure_sem core_fn core_sem]. f_equal.
+  induction bs as [|[] t IH]; cbn [map and_sem forallb andb]; [reflexivity|exact IH|reflexivity].
+Qed.
+Lemma and_prefix_true pre rest : Forall (fun v => v = jtrue) pre ->
+  pure_sem F_and (pre ++ rest) = pure_sem F_and rest.
+Proof.
+  intros H. cbv [pure_sem core_fn core_sem]. f_equal.
+  induction H as [|v t Hv _ IH]; [reflexivity|]. subst v. exact IH.
+Qed.
+Lemma and_first_false pre rest : Forall (fun v => v = jtrue) pre ->
+  pure_sem F_and (pre ++ jfalse :: rest) = Some (Some (JBool false)).
+Proof. intros H. now rewrite and_prefix_true. Qed.
+Lemma and_first_nonbool pre v rest : Forall (fun v => v = jtrue) pre -> not_bool v ->
+  pure_sem F_and (pre ++ v :: rest) = Some None.
+Proof.
+  intros H Hv. rewrite and_prefix_true by exact H.
+  destruct v as [[| | | | |]|]; try reflexivity. destruct Hv.
+Qed.
+Lemma and_wrong_type v rest : not_bool v -> pure_sem F_and (v :: rest) = Some None.
+Proof. apply (and_first_nonbool [] v rest). constructor. Qed.
+
+(* or: "Return true if any of the arguments are true, nothing if there is a non boolean argument
+   and false if all the arguments are false."  Again the first argument that is not `false` decides. *)
+Lemma or_bools bs :
+  pure_sem F_or (map (fun b => Some (JBool b)) bs) = Some (Some (JBool (existsb (fun b => b) bs))).
+Proof.
+  cbv [pure_sem core_fn core_sem]. f_equal.
+  induction bs as [|[] t IH]; cbn [map or_sem existsb orb]; [reflexivity|reflexivity|exact IH].
+Qed.
+Lemma or_prefix_false pre rest : Forall (fun v => v = jfalse) pre ->
+  pure_sem F_or (pre ++ rest) = pure_sem F_or rest.
+Proof.
+  intros H. cbv [pure_sem core_fn core_sem]. f_equal.
+  induction H as [|v t Hv _ IH]; [reflexivity|]. subst v. exact IH.
+Qed.
+Lemma or_first_true pre rest : Forall (fun v => v = jfalse) pre ->
+  pure_sem F_or (pre ++ jtrue :: rest) = Some (Some (JBool true)).
+Proof. intros H. now rewrite or_prefix_false. Qed.
+Lemma or_first_nonbool pre v rest : Forall (fun v => v = jfalse) pre -> not_bool v ->
+  pure_sem F_or (pre ++ v :: rest) = Some None.
+Proof.
+  intros H Hv. rewrite or_prefix_false by exact H.
+  destruct v as [[| | | | |]|]; try reflexivity. destruct Hv.
+Qed.
+Lemma or_wrong_type v rest : not_bool v -> pure_sem F_or (v :: rest) = Some None.
+Proof. apply (or_first_nonbool [] v rest). constructor. Qed.
+
+(* The sentence "nothing if there is a non boolean argument" is FALSE as a universal statement:
+   a non-boolean argument AFTER the deciding one is never looked at. *)
+Example and_nonbool_after_false :
+  pure_sem F_and [jfalse; Some (JNum (NPos 12))] = Some (Some (JBool false))
+  /\ pure_sem F_and [Some (JNum (NPos 12)); jfalse] = Some None.
+Proof. split; reflexivity. Qed.
+Example or_nonbool_after_true :
+  pure_sem F_or [jtrue; Some (JNum (NPos 12))] = Some (Some (JBool true))
+  /\ pure_sem F_or [Some (JNum (NPos 12)); jtrue] = Some None.
+Proof. split; reflexivity. Qed.
+
+(* ? (if): "Return the second argument if the first argument is true. Return the third argument if
+   the first is false. Return nothing if the first argument is not Boolean" *)
+Lemma if_true a b : pure_sem F_if [jtrue; a; b] = Some a.
+Proof. reflexivity. Qed.
+Lemma if_false a b : pure_sem F_if [jfalse; a; b] = Some b.
+Proof. reflexivity. Qed.
+Lemma if_wrong_type vals : not_bool (arg vals 0%nat) -> pure_sem F_if vals = Some None.
+Proof.
+  intros H. cbv [pure_sem core_fn core_sem].
+  destruct (arg vals 0%nat) as [[| | | | |]|]; try reflexivity; destruct H.
+Qed.
+
+(* default: "Get the first non empty value." *)
+Lemma default_spec vals : pure_sem F_default vals = Some (hd_error (present vals)).
+Proof.
+  cbv [pure_sem core_fn core_sem]. f_equal.
+  induction vals as [|[v|] t IH]; [reflexivity|reflexivity|exact IH].
+Qed.
+Lemma default_skips_absent n v rest :
+  pure_sem F_default (repeat None n ++ Some v :: rest) = Some (Some v).
+Proof. rewrite default_spec. induction n as [|n IH]; [reflexivity|exact IH]. Qed.
+Lemma default_all_absent n : pure_sem F_default (repeat None n) = Some None.
+Proof. rewrite default_spec. induction n as [|n IH]; [reflexivity|exact IH]. Qed.
+
+End Booleans.
+
+(* ====================================================================================== *)
+(* 8. number: abs, ceil, floor, round, +, -, *, /, %, sum                                  *)
+(* ====================================================================================== *)
+Section Numbers.
+Local Open Scope Z_scope.
+
+(* ---- impl From<f64> for JsonValue: "numeric results with zero fractional part are integers" ---- *)
+Lemma num_of_f_integral bits z : f_integral bits = Some z -> - p63 < z < p64 ->
+  num_of_f bits = if f_is_neg_strict bits then NNeg z else NPos (Z.to_N z).
+Proof.
+  intros Hi [Hlo Hhi]. unfold num_of_f. rewrite Hi. destruct (f_is_neg_strict bits).
+  - destruct (Z.ltb_spec (- p63) z); [reflexivity|lia].
+  - destruct (Z.ltb_spec z p64); [reflexivity|lia].
+Qed.
+
+Lemma num_of_f_integral_is_integer bits z : f_integral bits = Some z -> - p63 < z < p64 ->
+  match num_of_f bits with NFlt _ => False | _ => True end.
+Proof. intros Hi Hr. rewrite (num_of_f_integral bits z Hi Hr). now destruct (f_is_neg_strict bits). Qed.
+
+Lemma num_of_f_nonintegral bits : f_integral bits = None -> num_of_f bits = NFlt bits.
+Proof. intros H. unfold num_of_f. now rewrite H. Qed.
+
+(* a result stays a float only when it has a fractional part, is not finite, or is out of range *)
+Lemma num_of_f_float_only_if bits b' : num_of_f bits = NFlt b' ->
+  b' = bits /\ (f_integral bits = None \/ exists z, f_integral bits = Some z /\ (z <= - p63 \/ p64 <= z)).
+Proof.
+  unfold num_of_f. destruct (f_integral bits) as [z|] eqn:Hi.
+  - destruct (f_is_neg_strict bits).
+    + destruct (Z.ltb_spec (- p63) z) as [H|H]; [discriminate|].
+      intros E. injection E as <-. split; [reflexivity|right]. exists z. split; [reflexivity|lia].
+    + destruct (Z.ltb_spec z p64) as [H|H]; [discriminate|].
+      intros E. injection E as <-. split; [reflexivity|right]. exists z. split; [reflexivity|lia].
+  - intros E. injection E as <-. split; [reflexivity|now left].
+Qed.
+
+Lemma f_decode_fin_nonneg bits s m e : f_decode bits = FFin s m e -> 0 <= m.
+Proof.
+  unfold f_decode.
+  assert (Hp : 0 < p52) by reflexivity.
+  pose proof (Z.mod_pos_bound (f_mag (Z.of_N bits)) p52 Hp) as Hb.
+  destruct (f_mag (Z.of_N bits) / p52 =? 2047).
+  - destruct (f_mag (Z.of_N bits) mod p52 =? 0); discriminate.
+  - destruct (f_mag (Z.of_N bits) / p52 =? 0); intros E; injection E as <- <- <-; lia.
+Qed.
+
+(* the integer constructors are canonical: NNeg carries a negative value (so -0.0 becomes 0) *)
+Lemma num_of_f_sign bits :
+  match num_of_f bits with NNeg z => z < 0 | _ => True end.
+Proof.
+  unfold num_of_f. destruct (f_integral bits) as [z|] eqn:Hi; [|exact I].
+  destruct (f_is_neg_strict bits) eqn:Hn; [|now destruct (z <? p64)].
+  destruct (- p63 <? z); [|exact I].
+  unfold f_integral in Hi. unfold f_is_neg_strict in Hn.
+  destruct (f_decode bits) as [| |s m e] eqn:Hd; try discriminate Hi.
+  pose proof (f_decode_fin_nonneg bits s m e Hd) as Hm.
+  destruct s; [|discriminate Hn].
+  destruct (Z.eqb_spec m 0) as [->|Hm0]; [discriminate Hn|].
+  destruct (Z.leb_spec 0 e) as [He|He].
+  - injection Hi as <-. assert (Hp : 0 < 2 ^ e) by (apply Z.pow_pos_nonneg; lia).
+    assert (Hmp : 0 < m * 2 ^ e) by (apply Z.mul_pos_pos; lia).
+    fold (Z.opp m). rewrite Z.mul_opp_l. lia.
+  - assert (Hd2 : 0 < 2 ^ (- e)) by (apply Z.pow_pos_nonneg; lia).
+    destruct (Z.eqb_spec (m mod 2 ^ (- e)) 0) as [Hmod|Hmod]; [|discriminate Hi].
+    injection Hi as <-.
+    assert (Hq : 0 < m / 2 ^ (- e)).
+    { apply Z.div_str_pos. split; [exact Hd2|].
+      apply Z.divide_pos_le; [lia|]. apply Z.mod_divide; [lia|exact Hmod]. }
+    fold (Z.opp (m / 2 ^ (- e))). lia.
+Qed.
+
+(* ---- unary functions: "If the argument is numeric, return it's absolute value / ceiling /
+   floor / rounded." ---- *)
+Lemma unary_spec n :
+  pure_sem F_abs [Some (JNum n)] = Some (Some (JNum (num_of_f (f_abs (num_to_f n)))))
+  /\ pure_sem F_ceil [Some (JNum n)] = Some (Some (JNum (num_of_f (f_ceil (num_to_f n)))))
+  /\ pure_sem F_floor [Some (JNum n)] = Some (Some (JNum (num_of_f (f_floor (num_to_f n)))))
+  /\ pure_sem F_round [Some (JNum n)] = Some (Some (JNum (num_of_f (f_round (num_to_f n))))).
+Proof. repeat split; reflexivity. Qed.
+
+Lemma unary_wrong_type f vals : In f [F_abs; F_ceil; F_floor; F_round] ->
+  not_num (arg vals 0%nat) -> pure_sem f vals = Some None.
+Proof.
+  intros Hf H. cbv [In] in Hf.
+  repeat (destruct Hf as [<-|Hf]; [cbv [pure_sem core_fn sem_coll sem_num unary_sem as_f];
+    destruct (arg vals 0%nat) as [[| | | | |]|]; try reflexivity; destruct H|]).
+  destruct Hf.
+Qed.
+
+(* ---- +, * : "If all the arguments are number, add / multiply them." ---- *)
+Lemma fold_sem_nums op ns : forall acc,
+  fold_sem op acc (map (fun n => Some (JNum n)) ns)
+  = Some (JNum (num_of_f (fold_left op (map num_to_f ns) acc))).
+Proof. induction ns as [|n t IH]; intros acc; [reflexivity|]. cbn [map fold_sem as_f fold_left]. apply IH. Qed.
+
+Lemma fold_sem_not_num op vals : (exists v, In v vals /\ not_num v) -> forall acc, fold_sem op acc vals = None.
+Proof.
+  induction vals as [|x t IH]; intros (v & Hin & Hv) acc; [destruct Hin|].
+  destruct Hin as [->|Hin].
+  - destruct v as [[| | | | |]|]; try reflexivity. destruct Hv.
+  - cbn [fold_sem]. destruct (as_f x); [|reflexivity]. apply IH. exists v. now split.
+Qed.
+
+Lemma add_spec ns :
+  pure_sem F_add (map (fun n => Some (JNum n)) ns)
+  = Some (Some (JNum (num_of_f (fold_left f_add (map num_to_f ns) (f_zero false))))).
+Proof. cbv [pure_sem core_fn sem_coll sem_num]. now rewrite fold_sem_nums. Qed.
+Lemma mul_spec ns :
+  pure_sem F_mul (map (fun n => Some (JNum n)) ns)
+  = Some (Some (JNum (num_of_f (fold_left f_mul (map num_to_f ns) f_one)))).
+Proof. cbv [pure_sem core_fn sem_coll sem_num]. now rewrite fold_sem_nums. Qed.
+(* examples: plus 1 3 false, times 2 true : nothing *)
+Lemma add_wrong_type vals : (exists v, In v vals /\ not_num v) -> pure_sem F_add vals = Some None.
+Proof. intros H. cbv [pure_sem core_fn sem_coll sem_num]. now rewrite fold_sem_not_num. Qed.
+Lemma mul_wrong_type vals : (exists v, In v vals /\ not_num v) -> pure_sem F_mul vals = Some None.
+Proof. intros H. cbv [pure_sem core_fn sem_coll sem_num]. now rewrite fold_sem_not_num. Qed.
+
+(* ---- /, % : "Divide the firs argument by the second argument. If the second argument is 0 will
+   return nothing" ---- *)
+Lemma div_spec x y :
+  pure_sem F_div [Some (JNum x); Some (JNum y)]
+  = Some (if f_eqb (num_to_f y) (f_zero false) then None
+          else Some (JNum (num_of_f (f_div (num_to_f x) (num_to_f y))))).
+Proof. reflexivity. Qed.
+Lemma rem_spec x y :
+  pure_sem F_rem [Some (JNum x); Some (JNum y)]
+  = Some (if f_eqb (num_to_f y) (f_zero false) then None
+          else Some (JNum (num_of_f (f_rem (num_to_f x) (num_to_f y))))).
+Proof. reflexivity. Qed.
+Lemma div_by_zero x :
+  pure_sem F_div [Some (JNum x); Some (JNum (NPos 0))] = Some None
+  /\ pure_sem F_rem [Some (JNum x); Some (JNum (NPos 0))] = Some None
+  /\ pure_sem F_div [Some (JNum x); Some (JNum (NFlt (f_zero true)))] = Some None.
+Proof. repeat split; reflexivity. Qed.
+Lemma div_rem_wrong_type f vals : In f [F_div; F_rem] ->
+  not_num (arg vals 0%nat) \/ not_num (arg vals 1%nat) -> pure_sem f vals = Some None.
+Proof.
+  intros Hf H. cbv [In] in Hf.
+  repeat (destruct Hf as [<-|Hf]; [cbv [pure_sem core_fn sem_coll sem_num guarded_sem as_f];
+    destruct (arg vals 0%nat) as [[| | | | |]|], (arg vals 1%nat) as [[| | | | |]|];
+    try reflexivity; destruct H as [H|H]; destruct H|]).
+  destruct Hf.
+Qed.
+
+(* ---- - : "If there are two numeric arguments, substract the second argument from the first one.
+   If there is one numeric arguments, return the negative of that number." ---- *)
+Lemma sub_two x y :
+  pure_sem F_sub_ [Some (JNum x); Some (JNum y)]
+  = Some (Some (JNum (num_of_f (f_sub (num_to_f x) (num_to_f y))))).
+Proof. reflexivity. Qed.
+Lemma sub_one x :
+  pure_sem F_sub_ [Some (JNum x)] = Some (Some (JNum (num_of_f (f_sub (f_zero false) (num_to_f x))))).
+Proof. reflexivity. Qed.
+Lemma sub_wrong_type_one v : not_num v -> pure_sem F_sub_ [v] = Some None.
+Proof. intros H. destruct v as [[| | | | |]|]; try reflexivity; destruct H. Qed.
+Lemma sub_wrong_type_two a b : not_num a \/ not_num b -> pure_sem F_sub_ [a; b] = Some None.
+Proof.
+  intros H. destruct a as [[| | | | |]|], b as [[| | | | |]|]; try reflexivity;
+    destruct H as [H|H]; destruct H.
+Qed.
+
+(* ---- every numeric result is normalised through `num_of_f` ---- *)
+Lemma fold_sem_shape op vals : forall acc,
+  (exists bits, fold_sem op acc vals = Some (JNum (num_of_f bits))) \/ fold_sem op acc vals = None.
+Proof.
+  induction vals as [|v t IH]; intros acc; cbn [fold_sem]; [left; now eexists|].
+  destruct (as_f v); [apply IH|now right].
+Qed.
+
+Theorem numeric_results_normalised f vals :
+  In f [F_add; F_sub_; F_mul; F_div; F_rem; F_abs; F_floor; F_ceil; F_round] ->
+  (exists bits, pure_sem f vals = Some (Some (JNum (num_of_f bits)))) \/ pure_sem f vals = Some None.
+Proof.
+  intros Hf. cbv [In] in Hf.
+  destruct Hf as [<-|[<-|[<-|[<-|[<-|[<-|[<-|[<-|[<-|Hf]]]]]]]]]; [| | | | | | | | |destruct Hf];
+    cbv [pure_sem core_fn sem_coll sem_num unary_sem guarded_sem FunsNum.sub_sem jflt].
+  - destruct (fold_sem_shape f_add vals (f_zero false)) as [(b & ->)| ->]; [left; now eexists|now right].
+  - destruct (Nat.eqb (length vals) 1);
+      repeat match goal with |- context [as_f ?v] => destruct (as_f v) end;
+      (left; now eexists) || now right.
+  - destruct (fold_sem_shape f_mul vals f_one) as [(b & ->)| ->]; [left; now eexists|now right].
+  - destruct (as_f (arg vals 0%nat)), (as_f (arg vals 1%nat)); try (now right).
+    destruct (f_eqb _ _); [now right|left; now eexists].
+  - destruct (as_f (arg vals 0%nat)), (as_f (arg vals 1%nat)); try (now right).
+    destruct (f_eqb _ _); [now right|left; now eexists].
+  - destruct (as_f (arg vals 0%nat)); [left; now eexists|now right].
+  - destruct (as_f (arg vals 0%nat)); [left; now eexists|now right].
+  - destruct (as_f (arg vals 0%nat)); [left; now eexists|now right].
+  - destruct (as_f (arg vals 0%nat)); [left; now eexists|now right].
+Qed.
+
+(* hence: never a float with zero fractional part in i64/u64 range, never a "negative zero" *)
+Corollary numeric_results_integral f vals n :
+  In f [F_add; F_sub_; F_mul; F_div; F_rem; F_abs; F_floor; F_ceil; F_round] ->
+  pure_sem f vals = Some (Some (JNum n)) ->
+  match n with
+  | NFlt b => f_integral b = None \/ exists z, f_integral b = Some z /\ (z <= - p63 \/ p64 <= z)
+  | NNeg z => z < 0
+  | NPos _ => True
+  end.
+Proof.
+  intros Hf H. destruct (numeric_results_normalised f vals Hf) as [(bits & E)|E]; rewrite E in H;
+    [|discriminate H].
+  injection H as <-. pose proof (num_of_f_sign bits) as Hs.
+  destruct (num_of_f bits) as [k|z|b] eqn:En; [exact I|exact Hs|].
+  destruct (num_of_f_float_only_if bits b En) as [-> Hc]. exact Hc.
+Qed.
+
+(* sum: an exact integer sum, or the f64 sum normalised the same way *)
+Lemma sum_result_shape vals :
+  pure_sem F_sum vals = Some None
+  \/ (exists z, pure_sem F_sum vals = Some (Some (JNum (if z <? 0 then NNeg z else NPos (Z.to_N z)))))
+  \/ (exists bits, pure_sem F_sum vals = Some (Some (JNum (num_of_f bits)))).
+Proof.
+  cbv [pure_sem core_fn sem_coll FunsColl.sum_sem].
+  destruct (arg vals 0%nat) as [[| | | | |l]|] eqn:E0; try (now left).
+  destruct (negb (forallb is_num l)); [now left|].
+  destruct (sum_exact l 0) as [z|]; [right; left; now exists z|].
+  cbv [sem_num FunsNum.sum_sem]. rewrite E0.
+  destruct (fold_sem_shape f_add (map Some l) (f_zero false)) as [(b & ->)| ->];
+    [right; right; now exists b|now left].
+Qed.
+
+End Numbers.
+
+(* ====================================================================================== *)
+(* 9. the binders: map, filter, flat_map, sort_by, fold, group_by, filter_keys,             *)
+(*    filter_values — stated on `eval` for any `opaque` and any macro fuel `mf`             *)
+(* ====================================================================================== *)
+Section Binders.
+Variable opaque : fn -> list (option json) -> option json.
+Notation ev := (eval opaque).
+
+Definition opt_list (r : option json) : list json := match r with Some y => [y] | None => [] end.
+Definition arr_items (r : option json) : list json := match r with Some (JArr y) => y | _ => [] end.
+Definition is_jtrue (r : option json) : bool := match r with Some (JBool true) => true | _ => false end.
+
+(* one unfolding of eval at a two-argument list binder (holds by computation for each fuel) *)
+Definition list_binder_post (f : fn) (l : list json) (rs : list (option json)) : outcome :=
+  match f with
+  | F_map => Val (Some (JArr (flat_map opt_list rs)))
+  | F_filter => Val (Some (JArr (map fst (filter (fun p => is_jtrue (snd p)) (combine l rs)))))
+  | F_flat_map => Val (Some (JArr (flat_map arr_items rs)))
+  | _ => Val (Some (JArr (map fst (ssort (fun a b => ojcmp (snd a) (snd b)) (combine l rs)))))
+  end.
+
+Lemma eval_list_binder mf f a b c :
+  In f [F_map; F_filter; F_flat_map; F_sort_by] ->
+  ev mf (ECall f [a; b]) c
+  = match ev mf a c with
+    | Val (Some (JArr l)) =>
+        match all_vals (map (fun v => ev mf b (with_input c v)) l) with
+        | None => OutOfFuel
+        | Some rs => list_binder_post f l rs
+        end
+    | OutOfFuel => OutOfFuel
+    | _ => Val None
+    end.
+Proof.
+  intros Hf. cbv [In] in Hf.
+  destruct Hf as [<-|[<-|[<-|[<-|[]]]]]; destruct mf; reflexivity.
+Qed.
+
+Lemma all_vals_Val {A} (r : A -> option json) l : all_vals (map (fun x => Val (r x)) l) = Some (map r l).
+Proof. induction l as [|x t IH]; [reflexivity|]. cbn [map all_vals]. now rewrite IH. Qed.
+
+Lemma all_vals_body mf b c l (r : json -> option json) :
+  (forall x, In x l -> ev mf b (with_input c x) = Val (r x)) ->
+  all_vals (map (fun v => ev mf b (with_input c v)) l) = Some (map r l).
+Proof.
+  intros H. rewrite (map_ext_in _ (fun x => Val (r x)) l H). apply all_vals_Val.
+Qed.
+
+Lemma flat_map_map {A B C} (f : B -> list C) (g : A -> B) l :
+  flat_map f (map g l) = flat_map (fun x => f (g x)) l.
+Proof. induction l as [|x t IH]; [reflexivity|]. cbn [map flat_map]. now rewrite IH. Qed.
+
+Lemma filter_combine_map {A B} (test : B -> bool) (r : A -> B) l :
+  map fst (filter (fun p => test (snd p)) (combine l (map r l))) = filter (fun x => test (r x)) l.
+Proof.
+  induction l as [|x t IH]; [reflexivity|]. cbn [map combine filter snd].
+  destruct (test (r x)); cbn [map fst]; now rewrite IH.
+Qed.
+
+Lemma combine_map_self {A B} (r : A -> B) l : combine l (map r l) = map (fun x => (x, r x)) l.
+Proof. induction l as [|x t IH]; [reflexivity|]. cbn [map combine]. now rewrite IH. Qed.
+
+(* map: "If the first argument is a list, activate the second argument on each item and collect
+   into a new list."  Items on which the function gives nothing are dropped; order is kept. *)
+Theorem map_spec mf a b c l (r : json -> option json) :
+  ev mf a c = Val (Some (JArr l)) ->
+  (forall x, In x l -> ev mf b (with_input c x) = Val (r x)) ->
+  ev mf (ECall F_map [a; b]) c = Val (Some (JArr (flat_map (fun x => opt_list (r x)) l))).
+Proof.
+  intros Ha Hb. rewrite eval_list_binder by (cbv [In]; tauto).
+  rewrite Ha, (all_vals_body mf b c l r Hb). cbn [list_binder_post]. now rewrite flat_map_map.
+Qed.
+
+Corollary map_total_spec mf a b c l (g : json -> json) :
+  ev mf a c = Val (Some (JArr l)) ->
+  (forall x, In x l -> ev mf b (with_input c x) = Val (Some (g x))) ->
+  ev mf (ECall F_map [a; b]) c = Val (Some (JArr (map g l))).
+Proof.
+  intros Ha Hb. rewrite (map_spec mf a b c l (fun x => Some (g x)) Ha Hb).
+  cbn [opt_list]. now rewrite flat_map_singleton.
+Qed.
+
+(* filter: "return all the values for which the second argument is [true]" *)
+Theorem filter_spec mf a b c l (r : json -> option json) :
+  ev mf a c = Val (Some (JArr l)) ->
+  (forall x, In x l -> ev mf b (with_input c x) = Val (r x)) ->
+  ev mf (ECall F_filter [a; b]) c = Val (Some (JArr (filter (fun x => is_jtrue (r x)) l))).
+Proof.
+  intros Ha Hb. rewrite eval_list_binder by (cbv [In]; tauto).
+  rewrite Ha, (all_vals_body mf b c l r Hb). cbn [list_binder_post].
+  now rewrite (filter_combine_map is_jtrue r l).
+Qed.
+
+(* flat_map: "activate the second argument on each item, and if that returns a list, add all the
+   items to a new list." *)
+Theorem flat_map_spec mf a b c l (r : json -> option json) :
+  ev mf a c = Val (Some (JArr l)) ->
+  (forall x, In x l -> ev mf b (with_input c x) = Val (r x)) ->
+  ev mf (ECall F_flat_map [a; b]) c = Val (Some (JArr (flat_map (fun x => arr_items (r x)) l))).
+Proof.
+  intros Ha Hb. rewrite eval_list_binder by (cbv [In]; tauto).
+  rewrite Ha, (all_vals_body mf b c l r Hb). cbn [list_binder_post]. now rewrite flat_map_map.
+Qed.
+
+(* a first argument that is not a list gives nothing (examples `(map {} true)`, `(filter {} true)`) *)
+Lemma list_binder_wrong_type mf f a b c v :
+  In f [F_map; F_filter; F_flat_map; F_sort_by] ->
+  ev mf a c = Val v -> not_arr v -> ev mf (ECall f [a; b]) c = Val None.
+Proof.
+  intros Hf Ha Hv. rewrite eval_list_binder by exact Hf. rewrite Ha.
+  destruct v as [[| | | | |]|]; try reflexivity. destruct Hv.
+Qed.
+
+(* sort_by: "If the first argument is a list, return list sorted by the second argument."
+   (nothing sorts first: example `(sort_by ["12345", "", 10] (len .))` = [10, "", "12345"]) *)
+Lemma ojcmp_asym a b : ojcmp a b = Gt -> ojcmp b a <> Gt.
+Proof. destruct a, b; cbn [ojcmp]; try discriminate. apply jcmpS_asym. Qed.
+
+Lemma sorted_map_fst {A B} (R : B -> B -> Prop) (r : A -> B) (ps : list (A * B)) :
+  Sorted (fun p q => R (snd p) (snd q)) ps -> Forall (fun p => snd p = r (fst p)) ps ->
+  Sorted (fun x y => R (r x) (r y)) (map fst ps).
+Proof.
+  induction 1 as [|p ps Hs IH Hh]; intros Hf; [constructor|].
+  inversion Hf as [|? ? Hp Hps]; subst. cbn [map]. constructor; [now apply IH|].
+  destruct Hh as [|q ps' Hpq]; [constructor|]. cbn [map]. constructor.
+  inversion Hps as [|? ? Hq _]; subst. now rewrite <- Hp, <- Hq.
+Qed.
+
+Theorem sort_by_spec mf a b c l (r : json -> option json) :
+  ev mf a c = Val (Some (JArr l)) ->
+  (forall x, In x l -> ev mf b (with_input c x) = Val (r x)) ->
+  exists res, ev mf (ECall F_sort_by [a; b]) c = Val (Some (JArr res))
+              /\ Permutation res l
+              /\ Sorted (fun x y => ojcmp (r x) (r y) <> Gt) res.
+Proof.
+  intros Ha Hb. rewrite eval_list_binder by (cbv [In]; tauto).
+  rewrite Ha, (all_vals_body mf b c l r Hb). cbn [list_binder_post].
+  rewrite combine_map_self.
+  set (cmp := fun a0 b0 : json * option json => ojcmp (snd a0) (snd b0)).
+  set (ps := map (fun x => (x, r x)) l).
+  assert (Hperm : Permutation (ssort cmp ps) ps) by apply ssort_perm.
+  eexists. split; [reflexivity|]. split.
+  - apply (Permutation_map fst) in Hperm. unfold ps in Hperm at 2.
+    rewrite map_map in Hperm. cbn [fst] in Hperm. now rewrite map_id in Hperm.
+  - apply (sorted_map_fst (fun u v => ojcmp u v <> Gt) r).
+    + apply (ssort_sorted cmp). intros p q. apply ojcmp_asym.
+    + eapply Permutation_Forall; [apply Permutation_sym, Hperm|].
+      unfold ps. apply Forall_forall. intros p Hp. apply in_map_iff in Hp as (x & <- & _). reflexivity.
+Qed.
+
+(* ---- fold: "The function will accespt as input an hash with `value`, `index` and `so_far` keys
+   (if the previous run returned nothing, the `so_far` will be empty)." ---- *)
+Definition fold_input (cur : option json) (v : json) (idx : nat) : json :=
+  JObj (match cur with Some s => [(key_so_far, s)] | None => [] end
+        ++ [(key_value, v); (key_index, JNum (NPos (N.of_nat idx)))]).
+
+Definition fold_loop (step : ctx -> outcome) (c : ctx) : list json -> nat -> option json -> outcome :=
+  fix loop (l : list json) (idx : nat) (cur : option json) : outcome :=
+    match l with
+    | [] => Val cur
+    | v :: t => match step (with_input c (fold_input cur v idx)) with
+                | Val r => loop t (S idx) r
+                | OutOfFuel => OutOfFuel
+                end
+    end.
+
+Lemma eval_fold3 mf a i g c :
+  ev mf (ECall F_fold [a; i; g]) c
+  = match ev mf a c with
+    | Val (Some (JArr l)) =>
+        match ev mf i c with
+        | OutOfFuel => OutOfFuel
+        | Val init => fold_loop (ev mf g) c l O init
+        end
+    | OutOfFuel => OutOfFuel
+    | _ => Val None
+    end.
+Proof. destruct mf; reflexivity. Qed.
+
+Lemma eval_fold2 mf a g c :
+  ev mf (ECall F_fold [a; g]) c
+  = match ev mf a c with
+    | Val (Some (JArr l)) => fold_loop (ev mf g) c l O None
+    | OutOfFuel => OutOfFuel
+    | _ => Val None
+    end.
+Proof. destruct mf; reflexivity. Qed.
+
+Lemma fold_loop_spec (stepf : ctx -> outcome) c (step : option json -> json -> nat -> option json) :
+  (forall cur v idx, stepf (with_input c (fold_input cur v idx)) = Val (step cur v idx)) ->
+  forall l idx cur,
+  fold_loop stepf c l idx cur
+  = Val (fold_left (fun cur p => step cur (snd p) (fst p)) (combine (seq idx (length l)) l) cur).
+Proof.
+  intros Hs. induction l as [|v t IH]; intros idx cur; [reflexivity|].
+  cbn [fold_loop length seq combine fold_left fst snd]. rewrite Hs. apply IH.
+Qed.
+
+(* a left fold over the items in order, with their indices, from the initial value *)
+Theorem fold_spec mf a i g c l init (step : option json -> json -> nat -> option json) :
+  ev mf a c = Val (Some (JArr l)) ->
+  ev mf i c = Val init ->
+  (forall cur v idx, ev mf g (with_input c (fold_input cur v idx)) = Val (step cur v idx)) ->
+  ev mf (ECall F_fold [a; i; g]) c
+  = Val (fold_left (fun cur p => step cur (snd p) (fst p)) (combine (seq 0 (length l)) l) init).
+Proof.
+  intros Ha Hi Hg. rewrite eval_fold3, Ha, Hi. now apply fold_loop_spec.
+Qed.
+
+(* "If the fuinction has only two arguments, the initial value will not be set." *)
+Theorem fold_no_init_spec mf a g c l (step : option json -> json -> nat -> option json) :
+  ev mf a c = Val (Some (JArr l)) ->
+  (forall cur v idx, ev mf g (with_input c (fold_input cur v idx)) = Val (step cur v idx)) ->
+  ev mf (ECall F_fold [a; g]) c
+  = Val (fold_left (fun cur p => step cur (snd p) (fst p)) (combine (seq 0 (length l)) l) None).
+Proof.
+  intros Ha Hg. rewrite eval_fold2, Ha. now apply fold_loop_spec.
+Qed.
+
+Lemma fold_empty_list mf a i g c init :
+  ev mf a c = Val (Some (JArr [])) -> ev mf i c = Val init ->
+  ev mf (ECall F_fold [a; i; g]) c = Val init.
+Proof. intros Ha Hi. now rewrite eval_fold3, Ha, Hi. Qed.
+
+Lemma fold_wrong_type mf a i g c v :
+  ev mf a c = Val v -> not_arr v -> ev mf (ECall F_fold [a; i; g]) c = Val None.
+Proof.
+  intros Ha Hv. rewrite eval_fold3, Ha. destruct v as [[| | | | |]|]; try reflexivity. destruct Hv.
+Qed.
+
+End Binders.
+
+(* ---- group_by: "If the first argument is a list, return list grouped by the second argument."
+   Keys appear in the order in which they are first seen, the members of a group in the order of
+   the list (example: {"2":["11","23","ab"],"1":["5","1"],"0":["",{}],"3":["100"]}). ---- *)
+Section GroupBy.
+Variable opaque : fn -> list (option json) -> option json.
+Notation ev := (eval opaque).
+Variable k : json -> str.          (* the key of an item *)
+
+Definition add_key (ks : list str) (key : str) : list str :=
+  if existsb (str_eqb key) ks then ks else ks ++ [key].
+Definition first_seen (ks : list str) : list str := fold_left add_key ks [].
+Definition members (key : str) (l : list json) : list json := filter (fun x => str_eqb (k x) key) l.
+Definition groups_of (l : list json) : list (str * list json) :=
+  map (fun key => (key, members key l)) (first_seen (map k l)).
+Definition push_all (l : list json) (acc : list (str * list json)) : list (str * list json) :=
+  fold_left (fun acc x => group_push_v (k x) x acc) l acc.
+
+Lemma existsb_str_In key ks : existsb (str_eqb key) ks = true <-> In key ks.
+Proof.
+  rewrite existsb_exists. split.
+  - intros (y & Hy & E). apply str_eqb_eq in E. now subst.
+  - intros H. exists key. split; [exact H|apply str_eqb_refl].
+Qed.
+Lemma first_seen_snoc ks key : first_seen (ks ++ [key]) = add_key (first_seen ks) key.
+Proof. unfold first_seen. now rewrite fold_left_app. Qed.
+Lemma first_seen_In ks key : In key (first_seen ks) <-> In key ks.
+Proof.
+  induction ks as [|x t IH] using rev_ind; [reflexivity|].
+  rewrite first_seen_snoc, in_app_iff. unfold add_key.
+  destruct (existsb (str_eqb x) (first_seen t)) eqn:E.
+  - apply existsb_str_In in E. cbn [In]. split; [tauto|].
+    intros [H|[<-|[]]]; [now apply IH|exact E].
+  - rewrite in_app_iff. cbn [In]. tauto.
+Qed.
+Lemma first_seen_NoDup ks : NoDup (first_seen ks).
+Proof.
+  induction ks as [|x t IH] using rev_ind; [constructor|].
+  rewrite first_seen_snoc. unfold add_key.
+  destruct (existsb (str_eqb x) (first_seen t)) eqn:E; [exact IH|].
+  eapply Permutation_NoDup; [apply Permutation_cons_append|]. constructor; [|exact IH].
+  intros Hin. apply existsb_str_In in Hin. congruence.
+Qed.
+Lemma members_snoc key l x :
+  members key (l ++ [x]) = members key l ++ (if str_eqb (k x) key then [x] else []).
+Proof. unfold members. rewrite filter_app. reflexivity. Qed.
+Lemma members_nil key l : ~ In key (map k l) -> members key l = [].
+Proof.
+  intros H. unfold members. induction l as [|y t IH]; [reflexivity|]. cbn [filter].
+  rewrite str_eqb_neq; [apply IH|]; intros E; apply H; cbn [map In]; tauto.
+Qed.
+
+Lemma groups_other_keys l x K : (forall key, In key K -> key <> k x) ->
+  map (fun key => (key, members key (l ++ [x]))) K = map (fun key => (key, members key l)) K.
+Proof.
+  intros H. apply map_ext_in. intros key Hk. rewrite members_snoc.
+  rewrite (str_eqb_neq (k x) key); [now rewrite app_nil_r|]. intros E. now apply (H key Hk).
+Qed.
+Lemma push_absent l x K : ~ In (k x) K ->
+  group_push_v (k x) x (map (fun key => (key, members key l)) K)
+  = map (fun key => (key, members key l)) K ++ [(k x, [x])].
+Proof.
+  induction K as [|key K IH]; intros H; [reflexivity|]. cbn [map group_push_v app].
+  rewrite str_eqb_neq by (intros E; apply H; now left).
+  rewrite IH; [reflexivity|]. intros Hin. apply H. now right.
+Qed.
+Lemma push_present l x K : NoDup K -> In (k x) K ->
+  group_push_v (k x) x (map (fun key => (key, members key l)) K)
+  = map (fun key => (key, members key (l ++ [x]))) K.
+Proof.
+  induction K as [|key K IH]; intros Hnd Hin; [destruct Hin|]. cbn [map group_push_v].
+  inversion Hnd as [|? ? Hnotin HndK]; subst.
+  destruct (str_eqb (k x) key) eqn:E.
+  - apply str_eqb_eq in E. subst key. rewrite members_snoc, str_eqb_refl. f_equal.
+    symmetry. apply groups_other_keys. intros key Hk E. subst key. contradiction.
+  - destruct Hin as [Hin|Hin]; [subst key; now rewrite str_eqb_refl in E|].
+    rewrite (IH HndK Hin). f_equal. rewrite members_snoc, E. now rewrite app_nil_r.
+Qed.
+
+(* the IndexMap built by group_by is exactly: first-seen keys, each with its members in order *)
+Lemma push_all_groups l : push_all l [] = groups_of l.
+Proof.
+  induction l as [|x t IH] using rev_ind; [reflexivity|].
+  unfold push_all in *. rewrite fold_left_app. cbn [fold_left]. rewrite IH.
+  unfold groups_of. rewrite map_app. cbn [map]. rewrite first_seen_snoc. unfold add_key.
+  destruct (existsb (str_eqb (k x)) (first_seen (map k t))) eqn:E.
+  - apply existsb_str_In in E. apply push_present; [apply first_seen_NoDup|exact E].
+  - assert (Hnot : ~ In (k x) (first_seen (map k t))).
+    { intros Hin. apply existsb_str_In in Hin. congruence. }
+    rewrite push_absent by exact Hnot. rewrite map_app. cbn [map].
+    rewrite groups_other_keys by (intros key Hk Ek; subst key; contradiction).
+    rewrite members_snoc, str_eqb_refl, members_nil; [reflexivity|].
+    intros Hin. apply Hnot. now apply first_seen_In.
+Qed.
+
+Definition grp_loop : list (json * option json) -> list (str * list json) -> outcome :=
+  fix grp (prs : list (json * option json)) (acc : list (str * list json)) : outcome :=
+    match prs with
+    | [] => Val (Some (JObj (map (fun kl => (fst kl, JArr (snd kl))) acc)))
+    | (item, Some (JStr key)) :: t => grp t (group_push_v key item acc)
+    | _ => Val None
+    end.
+
+Lemma eval_group_by mf a b c :
+  ev mf (ECall F_group_by [a; b]) c
+  = match ev mf a c with
+    | Val (Some (JArr l)) =>
+        match all_vals (map (fun v => ev mf b (with_input c v)) l) with
+        | None => OutOfFuel
+        | Some rs => grp_loop (combine l rs) []
+        end
+    | OutOfFuel => OutOfFuel
+    | _ => Val None
+    end.
+Proof. destruct mf; reflexivity. Qed.
+
+Lemma grp_loop_strings l (r : json -> option json) :
+  (forall x, In x l -> r x = Some (JStr (k x))) -> forall acc,
+  grp_loop (combine l (map r l)) acc
+  = Val (Some (JObj (map (fun kl => (fst kl, JArr (snd kl))) (push_all l acc)))).
+Proof.
+  induction l as [|x t IH]; intros H acc; [reflexivity|].
+  cbn [map combine grp_loop]. rewrite (H x (or_introl eq_refl)).
+  rewrite IH by (intros y Hy; apply H; now right). reflexivity.
+Qed.
+
+Theorem group_by_spec mf a b c l :
+  ev mf a c = Val (Some (JArr l)) ->
+  (forall x, In x l -> ev mf b (with_input c x) = Val (Some (JStr (k x)))) ->
+  ev mf (ECall F_group_by [a; b]) c
+  = Val (Some (JObj (map (fun key => (key, JArr (filter (fun x => str_eqb (k x) key) l)))
+                         (first_seen (map k l))))).
+Proof.
+  intros Ha Hb. rewrite eval_group_by, Ha.
+  rewrite (all_vals_body opaque mf b c l (fun x => Some (JStr (k x))) Hb).
+  rewrite grp_loop_strings by reflexivity. rewrite push_all_groups.
+  unfold groups_of. now rewrite map_map.
+Qed.
+
+(* every item lands in exactly the group of its key, and every group is non-empty *)
+Lemma group_by_groups_nonempty l key : In key (first_seen (map k l)) -> members key l <> [].
+Proof.
+  intros H. apply (proj1 (first_seen_In _ _)) in H. apply in_map_iff in H as (x & <- & Hx).
+  intros E. assert (Hin : In x (members (k x) l)).
+  { unfold members. apply filter_In. split; [exact Hx|apply str_eqb_refl]. }
+  rewrite E in Hin. destruct Hin.
+Qed.
+
+(* example `(group_by [...] (len .))` : a key that is not a string makes the whole result nothing *)
+Lemma grp_loop_nonstring l (r : json -> option json) :
+  (exists x, In x l /\ not_str (r x)) -> forall acc, grp_loop (combine l (map r l)) acc = Val None.
+Proof.
+  induction l as [|y t IH]; intros (x & Hin & Hx) acc; [destruct Hin|].
+  cbn [map combine grp_loop]. destruct Hin as [->|Hin].
+  - destruct (r x) as [[| | | | |]|]; try reflexivity. destruct Hx.
+  - destruct (r y) as [[| | | | |]|]; try reflexivity. apply IH. exists x. now split.
+Qed.
+Theorem group_by_nonstring_key mf a b c l (r : json -> option json) :
+  ev mf a c = Val (Some (JArr l)) ->
+  (forall x, In x l -> ev mf b (with_input c x) = Val (r x)) ->
+  (exists x, In x l /\ not_str (r x)) ->
+  ev mf (ECall F_group_by [a; b]) c = Val None.
+Proof.
+  intros Ha Hb Hx. rewrite eval_group_by, Ha, (all_vals_body opaque mf b c l r Hb).
+  now apply grp_loop_nonstring.
+Qed.
+
+End GroupBy.
+
+(* ---- object/functional: filter_keys, filter_values keep the selected members in order ---- *)
+Section ObjectBinders.
+Variable opaque : fn -> list (option json) -> option json.
+Notation ev := (eval opaque).
+
+Lemma eval_filter_keys mf a b c :
+  ev mf (ECall F_filter_keys [a; b]) c
+  = match ev mf a c with
+    | Val (Some (JObj m)) =>
+        match all_vals (map (fun kv => ev mf b (with_input c (JStr (fst kv)))) m) with
+        | None => OutOfFuel
+        | Some rs => Val (Some (JObj (map fst (filter (fun p => is_jtrue (snd p)) (combine m rs)))))
+        end
+    | OutOfFuel => OutOfFuel
+    | _ => Val None
+    end.
+Proof. destruct mf; reflexivity. Qed.
+
+Lemma eval_filter_values mf a b c :
+  ev mf (ECall F_filter_values [a; b]) c
+  = match ev mf a c with
+    | Val (Some (JObj m)) =>
+        match all_vals (map (fun kv => ev mf b (with_input c (snd kv))) m) with
+        | None => OutOfFuel
+        | Some rs => Val (Some (JObj (map fst (filter (fun p => is_jtrue (snd p)) (combine m rs)))))
+        end
+    | OutOfFuel => OutOfFuel
+    | _ => Val None
+    end.
+Proof. destruct mf; reflexivity. Qed.
+
+(* filter_keys: "Filter an object by keys." *)
+Theorem filter_keys_spec mf a b c m (r : str -> option json) :
+  ev mf a c = Val (Some (JObj m)) ->
+  (forall kv, In kv m -> ev mf b (with_input c (JStr (fst kv))) = Val (r (fst kv))) ->
+  ev mf (ECall F_filter_keys [a; b]) c
+  = Val (Some (JObj (filter (fun kv => is_jtrue (r (fst kv))) m))).
+Proof.
+  intros Ha Hb. rewrite eval_filter_keys, Ha.
+  rewrite (map_ext_in _ (fun kv => Val (r (fst kv))) m Hb), all_vals_Val.
+  now rewrite (filter_combine_map is_jtrue (fun kv => r (fst kv)) m).
+Qed.
+
+(* filter_values: "Filter an object by values." *)
+Theorem filter_values_spec mf a b c m (r : json -> option json) :
+  ev mf a c = Val (Some (JObj m)) ->
+  (forall kv, In kv m -> ev mf b (with_input c (snd kv)) = Val (r (snd kv))) ->
+  ev mf (ECall F_filter_values [a; b]) c
+  = Val (Some (JObj (filter (fun kv => is_jtrue (r (snd kv))) m))).
+Proof.
+  intros Ha Hb. rewrite eval_filter_values, Ha.
+  rewrite (map_ext_in _ (fun kv => Val (r (snd kv))) m Hb), all_vals_Val.
+  now rewrite (filter_combine_map is_jtrue (fun kv => r (snd kv)) m).
+Qed.
+
+(* ---- every other call: the arguments are evaluated (left to right, all of them) and the
+   function is applied to their values; this transports every `pure_sem` law above to `eval` ---- *)
+Definition is_binder (f : fn) : bool :=
+  match f with
+  | F_pipe | F_set | F_define | F_at | F_colon | F_map | F_filter | F_flat_map | F_group_by
+  | F_sort_by | F_filter_keys | F_map_keys | F_filter_values | F_map_values
+  | F_sort_by_values_by | F_fold => true
+  | _ => false
+  end.
+
+Definition evs_of (e : expr -> ctx -> outcome) : list expr -> ctx -> list outcome :=
+  fix evs (l : list expr) (c : ctx) : list outcome :=
+    match l with [] => [] | a :: t => e a c :: evs t c end.
+
+Lemma evs_of_map e args c : evs_of e args c = map (fun a => e a c) args.
+Proof. induction args as [|a t IH]; [reflexivity|]. cbn [evs_of map]. now rewrite <- IH. Qed.
+
+Lemma eval_call_unfold mf f args c : is_binder f = false ->
+  ev mf (ECall f args) c
+  = match all_vals (map (fun a => ev mf a c) args) with
+    | Some vals => Val (match pure_sem f vals with Some r => r | None => opaque f vals end)
+    | None => OutOfFuel
+    end.
+Proof.
+  intros H. rewrite <- evs_of_map.
+  destruct f; try discriminate H; destruct mf; reflexivity.
+Qed.
+
+Lemma all_vals_Forall2 mf c args vals :
+  Forall2 (fun a v => ev mf a c = Val v) args vals ->
+  all_vals (map (fun a => ev mf a c) args) = Some vals.
+Proof.
+  induction 1 as [|a v args vals Hav _ IH]; [reflexivity|].
+  cbn [map all_vals]. now rewrite Hav, IH.
+Qed.
+
+Theorem eval_pure mf f args c vals r :
+  is_binder f = false ->
+  Forall2 (fun a v => ev mf a c = Val v) args vals ->
+  pure_sem f vals = Some r ->
+  ev mf (ECall f args) c = Val r.
+Proof.
+  intros Hf Hargs Hr. rewrite eval_call_unfold by exact Hf.
+  now rewrite (all_vals_Forall2 mf c args vals Hargs), Hr.
+Qed.
+
+(* e.g. (take e1 e2): a list and a count give the prefix, for any expressions e1 e2 *)
+Corollary eval_take mf e1 e2 c l n :
+  ev mf e1 c = Val (Some (JArr l)) -> ev mf e2 c = Val (Some (JNum (NPos n))) ->
+  ev mf (ECall F_take [e1; e2]) c = Val (Some (JArr (firstn (N.to_nat n) l))).
+Proof.
+  intros H1 H2. eapply eval_pure; [reflexivity| |apply take_list].
+  constructor; [exact H1|]. constructor; [exact H2|constructor].
+Qed.
+
+(* e.g. a wrong-typed argument gives nothing, never a failure, whatever the expressions are *)
+Corollary eval_take_wrong_type mf e1 e2 c v1 v2 :
+  ev mf e1 c = Val v1 -> ev mf e2 c = Val v2 -> not_coll v1 \/ not_usize v2 ->
+  ev mf (ECall F_take [e1; e2]) c = Val None.
+Proof.
+  intros H1 H2 Hw. eapply eval_pure; [reflexivity| |].
+  - constructor; [exact H1|]. constructor; [exact H2|constructor].
+  - destruct Hw as [Hw|Hw]; [now apply take_wrong_coll|now apply take_wrong_count].
+Qed.
+
+End ObjectBinders.
